@@ -26,7 +26,7 @@ From Coq Require Import List Bool Arith Lia.
 From Patronus Require Import Ic3 PdrImpl.
 Import ListNotations.
 
-Arguments Ok {A}. Arguments Err {A}. Arguments Panic {A}. Arguments Fuel {A}.
+Arguments Ok {lit St EM A}. Arguments Err {lit St EM A}. Arguments Panic {lit St EM A}. Arguments Fuel {lit St EM A}.
 
 Section PdrImplProofs.
   Variable lit : Type.
@@ -34,9 +34,12 @@ Section PdrImplProofs.
   Variable St : Type.
   Variable cube_of_state : St -> list lit.
   Variable W : Type.
-  Variable solve : nat -> query lit -> answer lit St.
+  Variable EM : Type.
+  Variable solve : nat -> query lit -> answer lit St EM.
+  Variable cmd_fail : nat -> option EM.
+  Variable n_init : nat.
   Variable gen_on has_bads : bool.
-  Variable bmc_result : bmc_answer W.
+  Variable bmc_result : bmc_answer W EM.
 
   Variable lit_holds : lit -> St -> bool.
   Variable bad0 : St -> bool.
@@ -45,9 +48,9 @@ Section PdrImplProofs.
   Variable bad : St -> bool.
 
   Notation ccube := (ccube lit).
-  Notation pst := (pst lit St).
+  Notation pst := (pst lit St EM).
   Notation query := (query lit).
-  Notation answer := (answer lit St).
+  Notation answer := (answer lit St EM).
 
   Definition ch (c : ccube) (s : St) : bool := forallb (fun l => lit_holds l s) c.
   Definition blocked (cs : list ccube) (s : St) : bool := existsb (fun c => ch c s) cs.
@@ -78,9 +81,10 @@ Section PdrImplProofs.
 
   Definition truthful (q : query) (a : answer) : Prop :=
     match a with
-    | ASat _ _ m => q_model q m
-    | AUnsat _ _ core => forall m, ~ q_model (if q_core _ q then restrict q core else q) m
-    | AUnknown _ _ => True
+    | ASat _ _ _ m => q_model q m
+    | AUnsat _ _ _ core => forall m, ~ q_model (if q_core _ q then restrict q core else q) m
+    | AUnknown _ _ _ => True
+    | AErr _ _ _ _ => True
     end.
 
   Hypothesis solver_ok : forall n q, truthful q (solve n q).
@@ -109,7 +113,7 @@ Section PdrImplProofs.
   Qed.
 
   (** ** the frames of a state *)
-  Notation asserted st := (p_asserted lit St st).
+  Notation asserted st := (p_asserted lit St EM st).
 
   Definition Fc (st : pst) (k : nat) (s : St) : Prop :=
     forall l c, In (l, c) (asserted st) -> lvl_ge l k = true -> ch c s = false.
@@ -125,7 +129,7 @@ Section PdrImplProofs.
       apply existsb_exists in E. destruct E as (c & Hc & Hs). rewrite (H c Hc) in Hs. discriminate.
   Qed.
 
-  Lemma clauses_at_Fc st k s : blocked (clauses_at lit St st k) s = false <-> Fc st k s.
+  Lemma clauses_at_Fc st k s : blocked (clauses_at lit St EM st k) s = false <-> Fc st k s.
   Proof.
     rewrite blocked_false. unfold clauses_at, Fc. split.
     - intros H l c Hin Hl. apply H. apply in_map_iff. exists (l, c). split; [reflexivity |].
@@ -134,7 +138,7 @@ Section PdrImplProofs.
       apply filter_In in Hf. destruct Hf as [Hin Hl]. now apply (H l c').
   Qed.
 
-  Lemma clauses_inf_Finf st s : blocked (clauses_inf lit St st) s = false <-> Finf st s.
+  Lemma clauses_inf_Finf st s : blocked (clauses_inf lit St EM st) s = false <-> Finf st s.
   Proof.
     rewrite blocked_false. unfold clauses_inf, Finf. split.
     - intros H c Hin. apply H. apply in_map_iff. exists (FInf, c). split; [reflexivity |].
@@ -170,8 +174,8 @@ Section PdrImplProofs.
   (** ** the invariants of a state *)
   Definition excl_post (c : ccube) : Prop := forall s0 s', step0 s0 s' = true -> ch c s' = false.
 
-  Definition frontier' (st : pst) : nat := length (p_frames lit St st).
-  Notation fcubes st k := (frame_cubes lit St st k).
+  Definition frontier' (st : pst) : nat := length (p_frames lit St EM st).
+  Notation fcubes st k := (frame_cubes lit St EM st k).
 
   Record pinv (st : pst) : Prop := {
     iv_post : forall l c, In (l, c) (asserted st) -> excl_post c;
@@ -237,7 +241,7 @@ Section PdrImplProofs.
 
   (** ** state changes that do not touch frames or clauses *)
   Definition sem_eq (st st' : pst) : Prop :=
-    p_frames lit St st' = p_frames lit St st /\ p_inf lit St st' = p_inf lit St st /\ asserted st' = asserted st.
+    p_frames lit St EM st' = p_frames lit St EM st /\ p_inf lit St EM st' = p_inf lit St EM st /\ asserted st' = asserted st.
 
   Lemma sem_eq_refl st : sem_eq st st.
   Proof. now repeat split. Qed.
@@ -276,16 +280,27 @@ Section PdrImplProofs.
       + right. exists l. rewrite Ha. now split.
   Qed.
 
-  Definition asked (st : pst) (q : query) : pst := snd (ask lit St solve st q).
+  Definition asked (st : pst) (q : query) : pst := snd (ask lit St EM solve st q).
 
-  Lemma ask_spec st q : ask lit St solve st q = (solve (p_q lit St st) q, asked st q).
+  Lemma ask_spec st q : ask lit St EM solve st q = (solve (p_q lit St EM st) q, asked st q).
   Proof. reflexivity. Qed.
   Lemma asked_sem st q : sem_eq st (asked st q).
   Proof. now repeat split. Qed.
-  Lemma new_acts_sem st n : sem_eq st (new_acts lit St st n).
+  Lemma new_acts_sem st n : sem_eq st (new_acts lit St EM st n).
   Proof. now repeat split. Qed.
 
   Opaque ask.
+
+  Lemma tick_sem st : sem_eq st (tick lit St EM st).
+  Proof. now repeat split. Qed.
+
+  Lemma cmds_spec n : forall st st', cmds lit St EM cmd_fail n st = Ok st' -> sem_eq st st'.
+  Proof.
+    induction n as [| n IH]; intros st st' H; cbn [cmds] in H.
+    - inversion H; subst. apply sem_eq_refl.
+    - destruct (cmd_fail (p_c lit St EM st)); [discriminate H |].
+      apply (sem_eq_trans _ (tick lit St EM st)); [apply tick_sem | now apply IH].
+  Qed.
 
   (** ** fix_gen_cube *)
   Lemma init_query_unsat k gen lm core :
@@ -308,41 +323,56 @@ Section PdrImplProofs.
   Proof. intros H1 H2 l Hl. apply H2, H1, Hl. Qed.
 
   Lemma fix_loop_spec fuel : forall st gen lm first fx st',
-      fix_loop lit lit_eqb St solve fuel st gen lm first = Ok (fx, st') ->
+      fix_loop lit lit_eqb St EM solve cmd_fail fuel st gen lm first = Ok (fx, st') ->
       sem_eq st st' /\ excl_post fx /\ sub_cube fx (gen ++ lm) /\ sub_cube gen fx.
   Proof.
     induction fuel as [| fuel IH]; intros st gen lm first fx st' H; [discriminate H |].
     cbn [fix_loop] in H. rewrite ask_spec in H.
-    pose proof (solver_ok (p_q lit St st) (init_query lit KGenFix gen lm true)) as Htr.
-    destruct (solve (p_q lit St st) (init_query lit KGenFix gen lm true)) as [m | core |]; cbn [truthful] in Htr.
-    - destruct first; discriminate H.
+    pose proof (solver_ok (p_q lit St EM st) (init_query lit KGenFix gen lm true)) as Htr.
+    pose proof (asked_sem st (init_query lit KGenFix gen lm true)) as Hs1.
+    set (st1 := asked st (init_query lit KGenFix gen lm true)) in *.
+    destruct (solve (p_q lit St EM st) (init_query lit KGenFix gen lm true)) as [m | core | | e]; cbn [truthful] in Htr.
+    - destruct first; [| discriminate H].
+      destruct (cmds lit St EM cmd_fail (length lm) st1); discriminate H.
     - cbn [init_query q_core] in Htr.
       pose proof (init_query_unsat KGenFix gen lm core Htr) as Hex.
-      destruct (length (filter (fun l => lit_mem lit lit_eqb l core) lm) =? length lm).
-      + inversion H; subst. split; [apply asked_sem |]. split; [exact Hex |].
-        split; [apply sub_cube_filter | apply sub_cube_app_l].
+      set (lm' := filter (fun l => lit_mem lit lit_eqb l core) lm) in *.
+      destruct (cmds lit St EM cmd_fail (length lm - length lm') st1) as [st2 | e l | n |] eqn:Ec; try discriminate H.
+      pose proof (cmds_spec _ _ _ Ec) as Hs2.
+      destruct (length lm' =? length lm).
+      + destruct (cmds lit St EM cmd_fail (length lm') st2) as [st3 | e l | n |] eqn:Ec3; try discriminate H.
+        inversion H; subst. pose proof (cmds_spec _ _ _ Ec3) as Hs3.
+        split; [apply (sem_eq_trans _ st1); [exact Hs1 | apply (sem_eq_trans _ st2); assumption] |].
+        split; [exact Hex |]. split; [apply sub_cube_filter | apply sub_cube_app_l].
       + destruct (IH _ _ _ _ _ _ H) as (He & Hp & Hs & Hg).
-        split; [apply (sem_eq_trans _ (asked st (init_query lit KGenFix gen lm true))); [apply asked_sem | exact He] |].
+        split; [apply (sem_eq_trans _ st1); [exact Hs1 | apply (sem_eq_trans _ st2); assumption] |].
         split; [exact Hp |]. split; [| exact Hg].
         apply (sub_cube_trans _ _ _ Hs). apply sub_cube_filter.
+    - discriminate H.
     - discriminate H.
   Qed.
 
   Lemma fix_gen_cube_spec st gen rm fx st' :
-    fix_gen_cube lit lit_eqb St solve st gen rm = Ok (fx, st') ->
+    fix_gen_cube lit lit_eqb St EM solve cmd_fail st gen rm = Ok (fx, st') ->
     sem_eq st st' /\ excl_post fx /\ sub_cube fx (gen ++ rm) /\ sub_cube gen fx.
   Proof.
     unfold fix_gen_cube. rewrite ask_spec. intros H.
-    pose proof (solver_ok (p_q lit St st) (init_query lit KGenCheck gen [] false)) as Htr.
-    destruct (solve (p_q lit St st) (init_query lit KGenCheck gen [] false)) as [m | core |]; cbn [truthful] in Htr.
-    - destruct (fix_loop_spec _ _ _ _ _ _ _ H) as (He & Hp & Hs & Hg).
+    pose proof (solver_ok (p_q lit St EM st) (init_query lit KGenCheck gen [] false)) as Htr.
+    pose proof (asked_sem st (init_query lit KGenCheck gen [] false)) as Hs1.
+    set (st1 := asked st (init_query lit KGenCheck gen [] false)) in *.
+    destruct (solve (p_q lit St EM st) (init_query lit KGenCheck gen [] false)) as [m | core | | e]; cbn [truthful] in Htr.
+    - destruct (cmds lit St EM cmd_fail (2 * length rm) (new_acts lit St EM st1 (length rm))) as [st2 | e l | n |] eqn:Ec; try discriminate H.
+      pose proof (cmds_spec _ _ _ Ec) as Hs2.
+      destruct (fix_loop_spec _ _ _ _ _ _ _ H) as (He & Hp & Hs & Hg).
       split; [| now repeat split].
-      apply (sem_eq_trans _ (asked st (init_query lit KGenCheck gen [] false))); [apply asked_sem |].
-      apply (sem_eq_trans _ (new_acts lit St (asked st (init_query lit KGenCheck gen [] false)) (length rm))); [apply new_acts_sem | exact He].
-    - inversion H; subst. split; [apply asked_sem |]. split.
+      apply (sem_eq_trans _ st1); [exact Hs1 |].
+      apply (sem_eq_trans _ (new_acts lit St EM st1 (length rm))); [apply new_acts_sem |].
+      apply (sem_eq_trans _ st2); assumption.
+    - inversion H; subst. split; [exact Hs1 |]. split.
       + intros s0 s' Hs. destruct (ch fx s') eqn:E; [| reflexivity]. exfalso. apply (Htr s0).
         cbn. split; [exact I |]. split; [exact I |]. exists s'. split; [exact Hs |]. now rewrite app_nil_r.
       + split; [apply sub_cube_app_l | intros l Hl; exact Hl].
+    - discriminate H.
     - discriminate H.
   Qed.
 
@@ -368,83 +398,102 @@ Section PdrImplProofs.
     end.
 
   Lemma from_of_ok st prev from s :
-    from_of lit St st prev = Some from -> prev <> FInit ->
+    from_of lit St EM st prev = Some from -> prev <> FInit ->
     (from_ok from s <-> match prev with FInit => True | FFinite k => Fc st k s | FInf => Finf st s end).
   Proof.
     destruct prev as [| k |]; cbn [from_of]; intros H Hne; [contradiction | |].
-    - destruct (k <=? frontier lit St st); [| discriminate H]. inversion H; subst. cbn [from_ok]. apply clauses_at_Fc.
+    - destruct (k <=? frontier lit St EM st); [| discriminate H]. inversion H; subst. cbn [from_ok]. apply clauses_at_Fc.
     - inversion H; subst. cbn [from_ok]. apply clauses_inf_Finf.
   Qed.
 
+  (** the meaning of the relative-induction query in terms of the frames *)
+  Definition relq (prev : frame_id) (from : from_spec lit) (c : ccube) (ext : bool) (g : ccube) : query :=
+    {| q_kind := KRelInd; q_frame := prev; q_from := from; q_bad := false;
+       q_neg := if ext && negb (is_init prev) then Some c else None;
+       q_fixed := []; q_sel := g; q_core := gen_on |}.
+
+  Lemma relq_model st prev from c ext g m :
+    from_of lit St EM st prev = Some from ->
+    (q_model (relq prev from c ext g) m <->
+     (exists s', prev_ok st prev m s' /\ ch g s' = true) /\
+     (ext && negb (is_init prev) = true -> ch c m = false)).
+  Proof.
+    intros Ef. unfold q_model, relq. cbn [q_from q_neg q_bad q_fixed q_sel app].
+    destruct prev as [| k |].
+    - cbn [from_of] in Ef. inversion Ef; subst from. cbn [from_ok is_init negb andb prev_ok].
+      rewrite andb_false_r. cbn [neg_ok]. split.
+      + intros (_ & _ & s' & Hs & Hc). split; [now exists s' | discriminate].
+      + intros ((s' & Hs & Hc) & _). repeat split; try exact I. now exists s'.
+    - pose proof (from_of_ok st (FFinite k) from m Ef ltac:(discriminate)) as Hfo.
+      cbn [is_init negb prev_ok]. rewrite andb_true_r.
+      assert (Hfrom : exists cs, from = FromClauses lit cs).
+      { cbn [from_of] in Ef. destruct (k <=? frontier lit St EM st); [| discriminate Ef]. inversion Ef. now eexists. }
+      destruct Hfrom as (cs & ->). split.
+      + intros (Hf & Hn & s' & Ht & Hc). split; [exists s'; repeat split; [now apply Hfo | exact Ht | exact Hc] |].
+        intros He. rewrite He in Hn. exact Hn.
+      + intros ((s' & (Hf & Ht) & Hc) & Hn). split; [now apply Hfo |]. split.
+        * destruct ext; cbn [neg_ok]; [now apply Hn | exact I].
+        * now exists s'.
+    - pose proof (from_of_ok st FInf from m Ef ltac:(discriminate)) as Hfo.
+      cbn [is_init negb prev_ok]. rewrite andb_true_r.
+      assert (Hfrom : exists cs, from = FromClauses lit cs) by (cbn [from_of] in Ef; inversion Ef; now eexists).
+      destruct Hfrom as (cs & ->). split.
+      + intros (Hf & Hn & s' & Ht & Hc). split; [exists s'; repeat split; [now apply Hfo | exact Ht | exact Hc] |].
+        intros He. rewrite He in Hn. exact Hn.
+      + intros ((s' & (Hf & Ht) & Hc) & Hn). split; [now apply Hfo |]. split.
+        * destruct ext; cbn [neg_ok]; [now apply Hn | exact I].
+        * now exists s'.
+  Qed.
+
   Lemma rel_ind_spec st c f ext r st' :
-    rel_ind lit lit_eqb St cube_of_state solve gen_on st c f ext = Ok (r, st') ->
+    rel_ind lit lit_eqb St cube_of_state EM solve cmd_fail gen_on st c f ext = Ok (r, st') ->
     exists prev, decrement f = Some prev /\ sem_eq st st' /\
                  rel_post st c prev (ext && negb (is_init prev)) r.
   Proof.
     unfold rel_ind. destruct (decrement f) as [prev |] eqn:Ed; [| discriminate].
-    destruct (from_of lit St st prev) as [from |] eqn:Ef; [| discriminate].
-    rewrite ask_spec.
-    set (q := {| q_kind := KRelInd; q_frame := prev; q_from := from; q_bad := false;
-                 q_neg := if ext && negb (is_init prev) then Some c else None;
-                 q_fixed := []; q_sel := c; q_core := gen_on |}).
-    set (st0 := new_acts lit St st (length c)).
-    pose proof (solver_ok (p_q lit St st0) q) as Htr.
-    assert (Hsem0 : sem_eq st (asked st0 q)).
-    { apply (sem_eq_trans _ st0); [apply new_acts_sem | apply asked_sem]. }
-    (* the meaning of the query in terms of the frames *)
-    assert (Hmodel : forall g m, q_model {| q_kind := KRelInd; q_frame := prev; q_from := from; q_bad := false;
-                                            q_neg := q_neg _ q; q_fixed := []; q_sel := g; q_core := gen_on |} m <->
-                                 (exists s', prev_ok st prev m s' /\ ch g s' = true) /\
-                                 (ext && negb (is_init prev) = true -> ch c m = false)).
-    { intros g m. unfold q_model. cbn [q_from q_neg q_bad q_fixed q_sel q app].
-      destruct prev as [| k |].
-      - cbn [from_of] in Ef. inversion Ef; subst from. cbn [from_ok is_init negb andb prev_ok].
-        rewrite andb_false_r. cbn [neg_ok]. split.
-        + intros (_ & _ & s' & Hs & Hc). split; [now exists s' | discriminate].
-        + intros ((s' & Hs & Hc) & _). repeat split; try exact I. now exists s'.
-      - pose proof (from_of_ok st (FFinite k) from m Ef ltac:(discriminate)) as Hfo.
-        cbn [is_init negb prev_ok]. rewrite andb_true_r.
-        assert (Hfrom : exists cs, from = FromClauses lit cs).
-        { cbn [from_of] in Ef. destruct (k <=? frontier lit St st); [| discriminate Ef]. inversion Ef. now eexists. }
-        destruct Hfrom as (cs & ->). split.
-        + intros (Hf & Hn & s' & Ht & Hc). split; [exists s'; repeat split; [now apply Hfo | exact Ht | exact Hc] |].
-          intros He. rewrite He in Hn. exact Hn.
-        + intros ((s' & (Hf & Ht) & Hc) & Hn). split; [now apply Hfo |]. split.
-          * destruct ext; cbn [neg_ok]; [now apply Hn | exact I].
-          * now exists s'.
-      - pose proof (from_of_ok st FInf from m Ef ltac:(discriminate)) as Hfo.
-        cbn [is_init negb prev_ok]. rewrite andb_true_r.
-        assert (Hfrom : exists cs, from = FromClauses lit cs) by (cbn [from_of] in Ef; inversion Ef; now eexists).
-        destruct Hfrom as (cs & ->). split.
-        + intros (Hf & Hn & s' & Ht & Hc). split; [exists s'; repeat split; [now apply Hfo | exact Ht | exact Hc] |].
-          intros He. rewrite He in Hn. exact Hn.
-        + intros ((s' & (Hf & Ht) & Hc) & Hn). split; [now apply Hfo |]. split.
-          * destruct ext; cbn [neg_ok]; [now apply Hn | exact I].
-          * now exists s'. }
-    destruct (solve (p_q lit St st0) q) as [m | core |] eqn:Ea; cbn [truthful] in Htr.
-    - intros H. inversion H; subst. exists prev. split; [reflexivity |]. split; [exact Hsem0 |].
-      cbn [rel_post]. apply (Hmodel c m) in Htr. destruct Htr as ((s' & Hp & Hc) & Hn).
+    destruct (from_of lit St EM st prev) as [from |] eqn:Ef; [| discriminate].
+    destruct (cmds lit St EM cmd_fail (2 * length c) (new_acts lit St EM st (length c))) as [st0 | e0 l0 | n0 |] eqn:Ec0; try discriminate.
+    pose proof (cmds_spec _ _ _ Ec0) as Hs0.
+    rewrite ask_spec. fold (relq prev from c ext c).
+    pose proof (solver_ok (p_q lit St EM st0) (relq prev from c ext c)) as Htr.
+    assert (Hsem1 : sem_eq st (asked st0 (relq prev from c ext c))).
+    { apply (sem_eq_trans _ (new_acts lit St EM st (length c))); [apply new_acts_sem |].
+      apply (sem_eq_trans _ st0); [exact Hs0 | apply asked_sem]. }
+    set (st1 := asked st0 (relq prev from c ext c)) in *.
+    cbv zeta.
+    destruct (solve (p_q lit St EM st0) (relq prev from c ext c)) as [m | core | | e] eqn:Ea; cbn [truthful] in Htr.
+    - destruct (cmds lit St EM cmd_fail (length c) st1) as [st3 | e3 l3 | n3 |] eqn:Ec3; try discriminate.
+      intros H. inversion H; subst. exists prev. split; [reflexivity |].
+      split; [apply (sem_eq_trans _ st1); [exact Hsem1 | now apply (cmds_spec _ _ _ Ec3)] |].
+      cbn [rel_post]. apply (relq_model st prev from c ext c m Ef) in Htr. destruct Htr as ((s' & Hp & Hc) & Hn).
       exists m, s'. repeat split; assumption.
     - destruct gen_on eqn:Eg.
-      + (* generalisation *)
-        set (g := filter (fun l => lit_mem lit lit_eqb l core) c) in *.
+      + set (g := filter (fun l => lit_mem lit lit_eqb l core) c) in *.
         set (rm := filter (fun l => negb (lit_mem lit lit_eqb l core)) c) in *.
-        destruct (fix_gen_cube lit lit_eqb St solve (asked st0 q) g rm) as [[fx st2] | e | n |] eqn:Efix; try discriminate.
+        destruct (fix_gen_cube lit lit_eqb St EM solve cmd_fail st1 g rm) as [[fx st2] | e2 l2 | n2 |] eqn:Efix; try discriminate.
+        destruct (cmds lit St EM cmd_fail (length c) st2) as [st3 | e3 l3 | n3 |] eqn:Ec3; try discriminate.
         intros H. inversion H; subst. exists prev. split; [reflexivity |].
         destruct (fix_gen_cube_spec _ _ _ _ _ Efix) as (He & Hpost & Hsub & Hg).
-        split; [apply (sem_eq_trans _ (asked st0 q)); assumption |].
+        split; [apply (sem_eq_trans _ st1); [exact Hsem1 | apply (sem_eq_trans _ st2); [exact He | now apply (cmds_spec _ _ _ Ec3)]] |].
         cbn [rel_post]. split; [| split; [intros _; exact Hpost |]].
         * apply (sub_cube_trans _ _ _ Hsub). intros l Hl. apply in_app_or in Hl.
           destruct Hl as [Hl | Hl]; apply filter_In in Hl; apply Hl.
         * intros s s' Hp Hn. destruct (ch fx s') eqn:E; [| reflexivity]. exfalso.
-          cbn [q_core q] in Htr. apply (Htr s). unfold restrict. cbn [q_kind q_frame q_from q_bad q_neg q_fixed q_sel q_core q].
-          apply (Hmodel g s). split; [| exact Hn]. exists s'. split; [exact Hp |].
+          unfold relq in Htr at 1. cbn [q_core] in Htr. rewrite Eg in Htr. apply (Htr s).
+          change (restrict (relq prev from c ext c) core) with (relq prev from c ext g).
+          apply (relq_model st prev from c ext g s Ef). split; [| exact Hn]. exists s'. split; [exact Hp |].
           now apply (sub_cube_ch g fx s' Hg).
-      + intros H. inversion H; subst. exists prev. split; [reflexivity |]. split; [exact Hsem0 |].
+      + destruct (cmds lit St EM cmd_fail (length c) st1) as [st3 | e3 l3 | n3 |] eqn:Ec3; try discriminate.
+        intros H. inversion H; subst. exists prev. split; [reflexivity |].
+        split; [apply (sem_eq_trans _ st1); [exact Hsem1 | now apply (cmds_spec _ _ _ Ec3)] |].
         cbn [rel_post]. split; [intros l Hl; exact Hl |]. split; [intros Hc; now contradiction Hc |].
         intros s s' Hp Hn. destruct (ch c s') eqn:E; [| reflexivity]. exfalso.
-        cbn [q_core q] in Htr. apply (Htr s). apply (Hmodel c s). split; [| exact Hn]. now exists s'.
-    - intros H. inversion H; subst. exists prev. split; [reflexivity |]. split; [exact Hsem0 | exact I].
+        unfold relq in Htr at 1. cbn [q_core] in Htr. rewrite Eg in Htr. apply (Htr s).
+        apply (relq_model st prev from c ext c s Ef). split; [| exact Hn]. now exists s'.
+    - destruct (cmds lit St EM cmd_fail (length c) st1) as [st3 | e3 l3 | n3 |] eqn:Ec3; try discriminate.
+      intros H. inversion H; subst. exists prev. split; [reflexivity |].
+      split; [apply (sem_eq_trans _ st1); [exact Hsem1 | now apply (cmds_spec _ _ _ Ec3)] | exact I].
+    - discriminate.
   Qed.
 
   (** ** add_blocked_cube / add_frame keep the invariants under the abstract side conditions *)
@@ -467,16 +516,40 @@ Section PdrImplProofs.
   Definition rel_cond (st : pst) (k : nat) (g : ccube) : Prop :=
     2 <= k -> forall s s', Fc st (pred k) s -> ch g s = false -> trans s s' = true -> ch g s' = false.
 
-  Lemma add_finite_spec st g k st' :
-    add_blocked_cube lit St st g (FFinite k) = Some st' ->
+  Lemma record_finite_spec st g k st' :
+    record_cube lit St EM st g (FFinite k) = Some st' ->
     asserted st' = (FFinite k, g) :: asserted st /\ frontier' st' = frontier' st /\ 1 <= k <= frontier' st /\
-    p_inf lit St st' = p_inf lit St st /\
+    p_inf lit St EM st' = p_inf lit St EM st /\
     forall j, fcubes st' j = if pred j =? pred k then fcubes st j ++ [g] else fcubes st j.
   Proof.
-    cbn [add_blocked_cube]. destruct (push_at lit k g (p_frames lit St st)) as [fs |] eqn:E; [| discriminate].
+    cbn [record_cube]. destruct (push_at lit k g (p_frames lit St EM st)) as [fs |] eqn:E; [| discriminate].
     intros H. inversion H; subst. destruct (push_at_spec g k _ _ E) as (Hk & Hlen & Hn).
     unfold frontier', frame_cubes. cbn [p_asserted p_frames p_inf]. repeat split; try assumption; try lia.
     intros j. apply Hn.
+  Qed.
+
+  Lemma add_blocked_inv st g f st' :
+    add_blocked_cube lit St EM cmd_fail st g f = Ok st' ->
+    exists st1, sem_eq st st1 /\ record_cube lit St EM st1 g f = Some st'.
+  Proof.
+    unfold add_blocked_cube. destruct (record_cube lit St EM st g f); [| discriminate].
+    destruct (cmds lit St EM cmd_fail 1 st) as [st1 | e l | n |] eqn:Ec; try discriminate.
+    destruct (record_cube lit St EM st1 g f) as [st2 |] eqn:Er; [| discriminate].
+    intros H. inversion H; subst. exists st1. split; [now apply (cmds_spec _ _ _ Ec) | exact Er].
+  Qed.
+
+  Lemma add_finite_spec st g k st' :
+    add_blocked_cube lit St EM cmd_fail st g (FFinite k) = Ok st' ->
+    asserted st' = (FFinite k, g) :: asserted st /\ frontier' st' = frontier' st /\ 1 <= k <= frontier' st /\
+    p_inf lit St EM st' = p_inf lit St EM st /\
+    forall j, fcubes st' j = if pred j =? pred k then fcubes st j ++ [g] else fcubes st j.
+  Proof.
+    intros H. destruct (add_blocked_inv _ _ _ _ H) as (st1 & Hsem & Hr).
+    destruct (record_finite_spec _ _ _ _ Hr) as (Ha & HN & Hk & Hi & Hf).
+    pose proof Hsem as (Hsf & Hsi & Hsa).
+    rewrite Hsa in Ha. rewrite (sem_eq_frontier st st1 Hsem) in HN, Hk. rewrite Hsi in Hi.
+    repeat split; try assumption; try lia.
+    intros j. rewrite Hf. now rewrite (sem_eq_fcubes st st1 j Hsem).
   Qed.
 
   Lemma Fc_cons st st' l g k s :
@@ -489,7 +562,7 @@ Section PdrImplProofs.
   Qed.
 
   Lemma add_finite_preserves st g k st' :
-    pinv st -> add_blocked_cube lit St st g (FFinite k) = Some st' ->
+    pinv st -> add_blocked_cube lit St EM cmd_fail st g (FFinite k) = Ok st' ->
     excl_post g -> rel_cond st k g -> pinv st'.
   Proof.
     intros Hinv Hadd Hex Hrel. destruct (add_finite_spec _ _ _ _ Hadd) as (Ha & HN & Hk & _ & _).
@@ -510,12 +583,15 @@ Section PdrImplProofs.
   Qed.
 
   Lemma add_inf_spec st g st' :
-    add_blocked_cube lit St st g FInf = Some st' ->
-    asserted st' = (FInf, g) :: asserted st /\ p_frames lit St st' = p_frames lit St st.
-  Proof. cbn [add_blocked_cube]. intros H. inversion H; subst. now split. Qed.
+    add_blocked_cube lit St EM cmd_fail st g FInf = Ok st' ->
+    asserted st' = (FInf, g) :: asserted st /\ p_frames lit St EM st' = p_frames lit St EM st.
+  Proof.
+    intros H. destruct (add_blocked_inv _ _ _ _ H) as (st1 & (Hsf & Hsi & Hsa) & Hr).
+    cbn [record_cube] in Hr. inversion Hr; subst. cbn [p_asserted p_frames]. now rewrite Hsa, Hsf.
+  Qed.
 
   Lemma add_inf_preserves st g st' :
-    pinv st -> add_blocked_cube lit St st g FInf = Some st' -> excl_post g ->
+    pinv st -> add_blocked_cube lit St EM cmd_fail st g FInf = Ok st' -> excl_post g ->
     (forall s s', Finf st s -> ch g s = false -> trans s s' = true -> ch g s' = false) -> pinv st'.
   Proof.
     intros Hinv Hadd Hex Hrel. destruct (add_inf_spec _ _ _ Hadd) as (Ha & Hfr).
@@ -540,25 +616,36 @@ Section PdrImplProofs.
       now apply (iv_lvl st Hinv l c).
   Qed.
 
-  Lemma add_frame_preserves st :
-    pinv st ->
+  Lemma add_frame_spec st sta :
+    add_frame lit St EM cmd_fail st = Ok sta ->
+    asserted sta = asserted st /\ p_frames lit St EM sta = p_frames lit St EM st ++ [[]] /\
+    p_inf lit St EM sta = p_inf lit St EM st.
+  Proof.
+    unfold add_frame. destruct (cmds lit St EM cmd_fail 1 st) as [st1 | e l | n |] eqn:Ec; try discriminate.
+    intros H. inversion H; subst. cbn [p_asserted p_frames p_inf].
+    destruct (cmds_spec _ _ _ Ec) as (Hf & Hi & Ha). now rewrite Hf, Hi, Ha.
+  Qed.
+
+  Lemma add_frame_preserves st sta :
+    pinv st -> add_frame lit St EM cmd_fail st = Ok sta ->
     (frontier' st = 0 -> forall s, bad0 s = false) ->
     (1 <= frontier' st -> forall s, Fc st (frontier' st) s -> bad s = false) ->
-    pinv (add_frame lit St st).
+    pinv sta.
   Proof.
-    intros Hinv H0 H1.
-    assert (HN : frontier' (add_frame lit St st) = S (frontier' st)).
-    { unfold frontier', add_frame. cbn [p_frames]. rewrite app_length. cbn. lia. }
-    assert (Hsame : forall k s, Fc (add_frame lit St st) k s <-> Fc st k s) by (intros; reflexivity).
+    intros Hinv Hadd H0 H1. destruct (add_frame_spec _ _ Hadd) as (Ha & Hfr & _).
+    assert (HN : frontier' sta = S (frontier' st)).
+    { unfold frontier'. rewrite Hfr, app_length. cbn. lia. }
+    assert (Hsame : forall k s, Fc sta k s <-> Fc st k s) by (intros; unfold Fc; now rewrite Ha).
+    assert (Hsinf : forall s, Finf sta s <-> Finf st s) by (intros; unfold Finf; now rewrite Ha).
     constructor.
-    - apply (iv_post st Hinv).
-    - apply (iv_step st Hinv).
-    - apply (iv_inf st Hinv).
-    - intros i s Hi Hf. rewrite HN in Hi. destruct (Nat.eq_dec i (frontier' st)) as [-> | Hne].
+    - intros l c Hin. rewrite Ha in Hin. now apply (iv_post st Hinv l c).
+    - intros j c Hin Hj s s' Hf Ht. rewrite Ha in Hin. apply (iv_step st Hinv j c Hin Hj s s'); [now apply Hsame | exact Ht].
+    - intros c Hin s s' Hf Ht. rewrite Ha in Hin. apply (iv_inf st Hinv c Hin s s'); [now apply Hsinf | exact Ht].
+    - intros i s Hi Hf. rewrite HN in Hi. apply Hsame in Hf. destruct (Nat.eq_dec i (frontier' st)) as [-> | Hne].
       + apply H1; [lia | exact Hf].
       + apply (iv_safe st Hinv i s); [lia | exact Hf].
     - intros _. destruct (frontier' st) eqn:E; [now apply H0 | apply (iv_safe0 st Hinv); lia].
-    - intros l c Hin. rewrite HN. pose proof (iv_lvl st Hinv l c Hin) as Hl. destruct l; [exact Hl | lia | exact I].
+    - intros l c Hin. rewrite Ha in Hin. rewrite HN. pose proof (iv_lvl st Hinv l c Hin) as Hl. destruct l; [exact Hl | lia | exact I].
   Qed.
 
   (** ** bookkeeping *)
@@ -583,7 +670,7 @@ Section PdrImplProofs.
   Qed.
 
   Lemma add_finite_bookx st g k st' id pending :
-    bookx st id pending -> add_blocked_cube lit St st g (FFinite k) = Some st' -> bookx st' id pending.
+    bookx st id pending -> add_blocked_cube lit St EM cmd_fail st g (FFinite k) = Ok st' -> bookx st' id pending.
   Proof.
     intros Hb Hadd. destruct (add_finite_spec _ _ _ _ Hadd) as (Ha & HN & Hk & _ & Hfc).
     assert (Hsub : forall l c', In (l, c') (asserted st) -> In (l, c') (asserted st')) by (intros; rewrite Ha; now right).
@@ -601,7 +688,7 @@ Section PdrImplProofs.
   Qed.
 
   Lemma add_inf_bookx st g st' id pending :
-    bookx st id pending -> add_blocked_cube lit St st g FInf = Some st' -> bookx st' id pending.
+    bookx st id pending -> add_blocked_cube lit St EM cmd_fail st g FInf = Ok st' -> bookx st' id pending.
   Proof.
     intros Hb Hadd. destruct (add_inf_spec _ _ _ Hadd) as (Ha & Hfr).
     assert (Hsub : forall l c', In (l, c') (asserted st) -> In (l, c') (asserted st')) by (intros; rewrite Ha; now right).
@@ -623,31 +710,31 @@ Section PdrImplProofs.
       + right. now right.
   Qed.
 
-  Lemma add_frame_book st : pinv st -> book st -> book (add_frame lit St st).
+  Lemma add_frame_book st sta : pinv st -> book st -> add_frame lit St EM cmd_fail st = Ok sta -> book sta.
   Proof.
-    intros Hinv Hb.
-    assert (Hfc : forall j, 1 <= j <= frontier' st -> fcubes (add_frame lit St st) j = fcubes st j).
-    { intros j Hj. unfold frame_cubes, add_frame. cbn [p_frames]. apply app_nth1. unfold frontier' in Hj. lia. }
+    intros Hinv Hb Hadd. destruct (add_frame_spec _ _ Hadd) as (Ha & Hfr & _).
+    assert (Hfc : forall j, 1 <= j <= frontier' st -> fcubes sta j = fcubes st j).
+    { intros j Hj. unfold frame_cubes. rewrite Hfr. apply app_nth1. unfold frontier' in Hj. lia. }
     constructor.
-    - intros k c Hk Hc. change (asserted (add_frame lit St st)) with (asserted st).
+    - intros k c Hk Hc. rewrite Ha.
       destruct (le_lt_dec k (frontier' st)) as [Hle | Hgt].
       + rewrite Hfc in Hc by lia. now apply (bk_in st Hb).
-      + unfold frame_cubes, add_frame in Hc. cbn [p_frames] in Hc. exfalso.
+      + unfold frame_cubes in Hc. rewrite Hfr in Hc. exfalso.
         destruct (Nat.eq_dec (pred k) (frontier' st)) as [E | E].
         * rewrite app_nth2 in Hc by (unfold frontier' in *; lia). unfold frontier' in E. rewrite E, Nat.sub_diag in Hc. exact Hc.
         * rewrite nth_overflow in Hc; [exact Hc |]. rewrite app_length. cbn. unfold frontier' in *. lia.
-    - intros j c Hin. change (asserted (add_frame lit St st)) with (asserted st) in Hin.
-      destruct (bk_cover st Hb j c Hin) as [Hc | Hc].
+    - intros j c Hin. rewrite Ha in Hin.
+      destruct (bk_cover st Hb j c Hin) as [Hc | (l & Hl & Hg)].
       + left. pose proof (iv_lvl st Hinv (FFinite j) c Hin) as Hl. cbn in Hl. now rewrite Hfc.
-      + right. exact Hc.
+      + right. exists l. rewrite Ha. now split.
   Qed.
 
   (** ** get_bad_cube *)
-  Lemma frontier_eq st : frontier lit St st = frontier' st.
+  Lemma frontier_eq st : frontier lit St EM st = frontier' st.
   Proof. reflexivity. Qed.
 
   Lemma get_bad_cube_spec st ob st' :
-    get_bad_cube lit St cube_of_state solve st = Ok (ob, st') ->
+    get_bad_cube lit St cube_of_state EM solve st = Ok (ob, st') ->
     sem_eq st st' /\
     match ob with
     | None => (frontier' st = 0 -> forall s, bad0 s = false) /\
@@ -657,16 +744,16 @@ Section PdrImplProofs.
                           (1 <= frontier' st -> Fc st (frontier' st) m /\ bad m = true)
     end.
   Proof.
-    unfold get_bad_cube, frontier_id. rewrite frontier_eq.
+    unfold get_bad_cube, frontier_id, fail. rewrite frontier_eq.
     destruct (frontier' st) as [| n] eqn:EN.
     - cbn [from_of]. rewrite ask_spec.
-      match goal with |- context [solve ?n ?q] => pose proof (solver_ok n q) as Htr; destruct (solve n q) as [m | core |] end;
+      match goal with |- context [solve ?n ?q] => pose proof (solver_ok n q) as Htr; destruct (solve n q) as [m | core | | e] end;
         cbn [truthful] in Htr; intros H; inversion H; subst; (split; [apply asked_sem |]).
       + exists m. split; [reflexivity |]. split; [intros _; apply Htr | intros Hc; lia].
       + split; [| intros Hc; lia]. intros _ s. destruct (bad0 s) eqn:E; [| reflexivity]. exfalso.
         apply (Htr s). cbn. repeat split; try exact I. exact E.
     - cbn [from_of]. rewrite frontier_eq, EN, Nat.leb_refl. rewrite ask_spec.
-      match goal with |- context [solve ?n ?q] => pose proof (solver_ok n q) as Htr; destruct (solve n q) as [m | core |] end;
+      match goal with |- context [solve ?n ?q] => pose proof (solver_ok n q) as Htr; destruct (solve n q) as [m | core | | e] end;
         cbn [truthful] in Htr; intros H; inversion H; subst; (split; [apply asked_sem |]).
       + exists m. split; [reflexivity |]. split; [discriminate |]. intros _.
         destruct Htr as (Hf & _ & Hb). cbn in Hf, Hb. split; [now apply clauses_at_Fc | exact Hb].
@@ -694,7 +781,7 @@ Section PdrImplProofs.
   Qed.
 
   Lemma fid_le_frontier st t : 1 <= t ->
-    (fid_le (FFinite t) (frontier_id lit St st) = true <-> t <= frontier' st).
+    (fid_le (FFinite t) (frontier_id lit St EM st) = true <-> t <= frontier' st).
   Proof.
     intros Ht. unfold frontier_id. rewrite frontier_eq. destruct (frontier' st) as [| n]; cbn [fid_le].
     - split; [discriminate | lia].
@@ -702,16 +789,16 @@ Section PdrImplProofs.
   Qed.
 
   Lemma push_loop_spec fuel : forall st cand t tf' st',
-      push_loop lit lit_eqb St cube_of_state solve gen_on fuel st cand (FFinite t) = Ok (tf', st') ->
+      push_loop lit lit_eqb St cube_of_state EM solve cmd_fail gen_on fuel st cand (FFinite t) = Ok (tf', st') ->
       2 <= t -> t <= S (frontier' st) ->
       sem_eq st st' /\ exists t', tf' = FFinite t' /\ t <= t' /\ (t' <= S (frontier' st)) /\
                                    (t < t' -> rel_cond st (pred t') cand).
   Proof.
     induction fuel as [| fuel IH]; intros st cand t tf' st' H Ht HtS; [discriminate H |].
     cbn [push_loop] in H.
-    destruct (fid_le (FFinite t) (frontier_id lit St st)) eqn:Ele.
+    destruct (fid_le (FFinite t) (frontier_id lit St EM st)) eqn:Ele.
     - assert (HtN : t <= frontier' st) by (apply (fid_le_frontier st t); [lia | exact Ele]).
-      destruct (rel_ind lit lit_eqb St cube_of_state solve gen_on st cand (FFinite t) true) as [[r st1] | e | n |] eqn:Er; try discriminate H.
+      destruct (rel_ind lit lit_eqb St cube_of_state EM solve cmd_fail gen_on st cand (FFinite t) true) as [[r st1] | e | n |] eqn:Er; try discriminate H.
       destruct (rel_ind_spec _ _ _ _ _ _ Er) as (prev & Hd & Hsem & Hpost).
       destruct (decrement_spec _ _ Hd) as [(Hf & Hp) | (k & Hf & Hp)]; [inversion Hf; lia |].
       inversion Hf; subst t prev. cbn [is_init negb andb] in Hpost.
@@ -783,7 +870,7 @@ Section PdrImplProofs.
 
   Lemma block_loop_spec fuel : forall st work b st',
       pinv st -> book st -> Forall (obl_ok (frontier' st)) work ->
-      block_loop lit lit_eqb St cube_of_state solve gen_on fuel st work = Ok (b, st') ->
+      block_loop lit lit_eqb St cube_of_state EM solve cmd_fail gen_on fuel st work = Ok (b, st') ->
       pinv st' /\ book st' /\ frontier' st' = frontier' st /\ (b = false -> unsafe_at (frontier' st)).
   Proof.
     induction fuel as [| fuel IH]; intros st work b st' Hinv Hbook Hwork H; [discriminate H |].
@@ -798,7 +885,7 @@ Section PdrImplProofs.
     { destruct f; try discriminate Ei. inversion H; subst.
       split; [assumption | split; [assumption | split; [reflexivity |]]].
       intros _. now apply (obl_init_unsafe _ c). }
-    destruct (rel_ind lit lit_eqb St cube_of_state solve gen_on st c f true) as [[r st1] | e | n |] eqn:Er; try discriminate H.
+    destruct (rel_ind lit lit_eqb St cube_of_state EM solve cmd_fail gen_on st c f true) as [[r st1] | e | n |] eqn:Er; try discriminate H.
     destruct (rel_ind_spec _ _ _ _ _ _ Er) as (prev & Hd & Hsem & Hpost).
     assert (HN1 : frontier' st1 = frontier' st) by (apply (sem_eq_frontier st st1 Hsem)).
     destruct r as [p | og |]; [| | discriminate H].
@@ -833,11 +920,11 @@ Section PdrImplProofs.
           + now apply rel_post_rel_cond. }
       destruct Hbase as (j & -> & Hj & Hex & Hrc).
       cbn [increment] in H.
-      destruct (push_loop lit lit_eqb St cube_of_state solve gen_on (S (S (frontier lit St st1))) st1 cand (FFinite (S j)))
+      destruct (push_loop lit lit_eqb St cube_of_state EM solve cmd_fail gen_on (S (S (frontier lit St EM st1))) st1 cand (FFinite (S j)))
         as [[tf' st2] | e | n |] eqn:Epush; try discriminate H.
       destruct (push_loop_spec _ _ _ _ _ _ Epush ltac:(lia) ltac:(rewrite HN1; lia)) as (Hsem2 & t' & -> & Hle & HleN & Hrc2).
       destruct t' as [| [| t'']]; try lia. cbn [decrement] in H.
-      destruct (add_blocked_cube lit St st2 cand (FFinite (S t''))) as [st3 |] eqn:Eadd; [| discriminate H].
+      destruct (add_blocked_cube lit St EM cmd_fail st2 cand (FFinite (S t''))) as [st3 | ea la | na |] eqn:Eadd; try discriminate H.
       assert (Hsem02 : sem_eq st st2) by (now apply (sem_eq_trans _ st1)).
       assert (Hinv3 : pinv st3).
       { apply (add_finite_preserves st2 cand (S t'') st3); [now apply (sem_eq_pinv st) | exact Eadd | exact Hex |].
@@ -880,11 +967,11 @@ Section PdrImplProofs.
   Qed.
 
   Lemma set_frame_spec st k cs : 1 <= k <= frontier' st ->
-    asserted (set_frame lit St st k cs) = asserted st /\ frontier' (set_frame lit St st k cs) = frontier' st /\
-    forall j, fcubes (set_frame lit St st k cs) j = if pred j =? pred k then cs else fcubes st j.
+    asserted (set_frame lit St EM st k cs) = asserted st /\ frontier' (set_frame lit St EM st k cs) = frontier' st /\
+    forall j, fcubes (set_frame lit St EM st k cs) j = if pred j =? pred k then cs else fcubes st j.
   Proof.
     intros Hk. unfold set_frame, frontier', frame_cubes. cbn [p_asserted p_frames].
-    destruct (set_nth_spec cs k (p_frames lit St st) Hk) as (Hlen & Hn).
+    destruct (set_nth_spec cs k (p_frames lit St EM st) Hk) as (Hlen & Hn).
     split; [reflexivity |]. split; [exact Hlen |]. intros j. apply Hn.
   Qed.
 
@@ -894,7 +981,7 @@ Section PdrImplProofs.
   Qed.
 
   Lemma bookx_take st id : pinv st -> book st -> 1 <= id <= frontier' st ->
-    bookx (set_frame lit St st id []) id (fcubes st id).
+    bookx (set_frame lit St EM st id []) id (fcubes st id).
   Proof.
     intros Hinv Hb Hid. destruct (set_frame_spec st id [] Hid) as (Ha & _ & Hfc). constructor.
     - intros k c Hk Hc. rewrite Ha. rewrite Hfc in Hc. destruct (pred k =? pred id); [destruct Hc |]. now apply (bk_in st Hb).
@@ -905,7 +992,7 @@ Section PdrImplProofs.
   Qed.
 
   Lemma bookx_keep st id c r : pinv st -> bookx st id (c :: r) -> 1 <= id <= frontier' st ->
-    In (FFinite id, c) (asserted st) -> bookx (keep_cube lit St st id c) id r.
+    In (FFinite id, c) (asserted st) -> bookx (keep_cube lit St EM st id c) id r.
   Proof.
     intros Hinv Hb Hid Hc. unfold keep_cube.
     destruct (set_frame_spec st id (fcubes st id ++ [c]) Hid) as (Ha & _ & Hfc). constructor.
@@ -931,13 +1018,13 @@ Section PdrImplProofs.
   Lemma prop_cubes_spec id : forall cs st st',
       pinv st -> bookx st id cs -> (forall c, In c cs -> In (FFinite id, c) (asserted st)) ->
       1 <= id -> S id <= frontier' st ->
-      prop_cubes lit lit_eqb St cube_of_state solve gen_on st id cs = Ok st' ->
+      prop_cubes lit lit_eqb St cube_of_state EM solve cmd_fail gen_on st id cs = Ok st' ->
       pinv st' /\ bookx st' id [] /\ frontier' st' = frontier' st.
   Proof.
     induction cs as [| c r IH]; intros st st' Hinv Hb Has Hid HidN H.
     - inversion H; subst. split; [assumption | split; [assumption | reflexivity]].
     - cbn [prop_cubes] in H.
-      destruct (rel_ind lit lit_eqb St cube_of_state solve gen_on st c (FFinite (S id)) false) as [[rr st1] | e | n |] eqn:Er; try discriminate H.
+      destruct (rel_ind lit lit_eqb St cube_of_state EM solve cmd_fail gen_on st c (FFinite (S id)) false) as [[rr st1] | e | n |] eqn:Er; try discriminate H.
       destruct (rel_ind_spec _ _ _ _ _ _ Er) as (prev & Hd & Hsem & Hpost).
       assert (Hprev : prev = FFinite id).
       { destruct id as [| id']; [lia |]. cbn in Hd. now inversion Hd. }
@@ -947,10 +1034,10 @@ Section PdrImplProofs.
       assert (Hb1 : bookx st1 id (c :: r)) by now apply (sem_eq_bookx st).
       assert (Has1 : forall c', In c' (c :: r) -> In (FFinite id, c') (asserted st1)).
       { intros c' Hc'. destruct Hsem as (_ & _ & Ha). rewrite Ha. now apply Has. }
-      assert (Hkeep : forall st2, prop_cubes lit lit_eqb St cube_of_state solve gen_on (keep_cube lit St st1 id c) id r = Ok st2 ->
+      assert (Hkeep : forall st2, prop_cubes lit lit_eqb St cube_of_state EM solve cmd_fail gen_on (keep_cube lit St EM st1 id c) id r = Ok st2 ->
                                   pinv st2 /\ bookx st2 id [] /\ frontier' st2 = frontier' st).
       { intros st2 H2. destruct (set_frame_spec st1 id (fcubes st1 id ++ [c]) ltac:(lia)) as (Ha & HNk & _).
-        fold (keep_cube lit St st1 id c) in Ha, HNk.
+        fold (keep_cube lit St EM st1 id c) in Ha, HNk.
         apply IH in H2.
         - rewrite HNk, HN1 in H2. exact H2.
         - now apply (pinv_same st1).
@@ -959,7 +1046,7 @@ Section PdrImplProofs.
         - exact Hid.
         - rewrite HNk. lia. }
       destruct rr as [p | og |]; [now apply Hkeep | | now apply Hkeep].
-      destruct (add_blocked_cube lit St st1 c (FFinite (S id))) as [st2 |] eqn:Eadd; [| discriminate H].
+      destruct (add_blocked_cube lit St EM cmd_fail st1 c (FFinite (S id))) as [st2 | ea la | na |] eqn:Eadd; try discriminate H.
       destruct (add_finite_spec _ _ _ _ Eadd) as (Ha2 & HN2 & _).
       assert (Hinv2 : pinv st2).
       { apply (add_finite_preserves st1 c (S id) st2 Hinv1 Eadd).
@@ -994,18 +1081,18 @@ Section PdrImplProofs.
 
   Lemma prop_frames_spec n : forall st id b st',
       pinv st -> book st -> 1 <= id -> id + n = frontier' st ->
-      prop_frames lit lit_eqb St cube_of_state solve gen_on n st id = Ok (b, st') ->
+      prop_frames lit lit_eqb St cube_of_state EM solve cmd_fail gen_on n st id = Ok (b, st') ->
       (b = true -> safe) /\ (b = false -> pinv st' /\ book st' /\ frontier' st' = frontier' st).
   Proof.
     induction n as [| n IH]; intros st id b st' Hinv Hb Hid HidN H.
     - inversion H; subst. split; [discriminate | intros _; split; [assumption | split; [assumption | reflexivity]]].
     - cbn [prop_frames] in H.
-      destruct (prop_cubes lit lit_eqb St cube_of_state solve gen_on (set_frame lit St st id []) id (fcubes st id)) as [st1 | e | m |] eqn:Ep; try discriminate H.
+      destruct (prop_cubes lit lit_eqb St cube_of_state EM solve cmd_fail gen_on (set_frame lit St EM st id []) id (fcubes st id)) as [st1 | e | m |] eqn:Ep; try discriminate H.
       destruct (set_frame_spec st id [] ltac:(lia)) as (Ha0 & HN0 & _).
       apply prop_cubes_spec in Ep.
       + destruct Ep as (Hinv1 & Hb1 & HN1). rewrite HN0 in HN1. apply book_bookx in Hb1.
         destruct (fcubes st1 id) as [| c0 r0] eqn:Efc.
-        * destruct (cleanup lit St (frontier lit St st1 - id) st1 (S id)); [| discriminate H]. inversion H; subst.
+        * destruct (cleanup lit St EM cmd_fail (frontier lit St EM st1 - id) st1 (S id)); try discriminate H. inversion H; subst.
           split; [| discriminate]. intros _. apply (fixpoint_from_book st1 id Hinv1 Hb1); [lia | exact Efc].
         * apply IH in H; try assumption; try lia.
           destruct H as [Ht Hf]. split; [exact Ht |]. intros Hb'. destruct (Hf Hb') as (H1 & H2 & H3).
@@ -1020,25 +1107,25 @@ Section PdrImplProofs.
   Lemma prop_last_spec N : forall cs st st',
       pinv st -> bookx st N cs -> (forall c, In c cs -> In (FFinite N, c) (asserted st)) ->
       1 <= N -> N = frontier' st ->
-      prop_last lit St solve st N cs = Ok st' ->
+      prop_last lit St EM solve cmd_fail st N cs = Ok st' ->
       pinv st' /\ bookx st' N [] /\ frontier' st' = frontier' st.
   Proof.
     induction cs as [| c r IH]; intros st st' Hinv Hb Has HN1 HN H.
     - inversion H; subst. split; [assumption | split; [assumption | reflexivity]].
     - cbn [prop_last] in H. rewrite ask_spec in H.
-      set (q := {| q_kind := KInf; q_frame := FInf; q_from := FromClauses lit (clauses_inf lit St st); q_bad := false;
+      set (q := {| q_kind := KInf; q_frame := FInf; q_from := FromClauses lit (clauses_inf lit St EM st); q_bad := false;
                    q_neg := Some c; q_fixed := c; q_sel := []; q_core := false |}) in *.
-      pose proof (solver_ok (p_q lit St st) q) as Htr.
+      pose proof (solver_ok (p_q lit St EM st) q) as Htr.
       pose proof (asked_sem st q) as Hsem. set (st1 := asked st q) in *.
       assert (HNa : frontier' st1 = frontier' st) by apply (sem_eq_frontier st st1 Hsem).
       assert (Hinv1 : pinv st1) by now apply (sem_eq_pinv st).
       assert (Hb1 : bookx st1 N (c :: r)) by now apply (sem_eq_bookx st).
       assert (Has1 : forall c', In c' (c :: r) -> In (FFinite N, c') (asserted st1)).
       { intros c' Hc'. destruct Hsem as (_ & _ & Ha). rewrite Ha. now apply Has. }
-      assert (Hkeep : forall st2, prop_last lit St solve (keep_cube lit St st1 N c) N r = Ok st2 ->
+      assert (Hkeep : forall st2, prop_last lit St EM solve cmd_fail (keep_cube lit St EM st1 N c) N r = Ok st2 ->
                                   pinv st2 /\ bookx st2 N [] /\ frontier' st2 = frontier' st).
       { intros st2 H2. destruct (set_frame_spec st1 N (fcubes st1 N ++ [c]) ltac:(lia)) as (Ha & HNk & _).
-        fold (keep_cube lit St st1 N c) in Ha, HNk.
+        fold (keep_cube lit St EM st1 N c) in Ha, HNk.
         apply IH in H2.
         - rewrite HNk, HNa in H2. exact H2.
         - now apply (pinv_same st1).
@@ -1046,8 +1133,8 @@ Section PdrImplProofs.
         - intros c' Hc'. rewrite Ha. apply Has1. now right.
         - exact HN1.
         - rewrite HNk. lia. }
-      destruct (solve (p_q lit St st) q) as [m | core |] eqn:Ea; cbn [truthful] in Htr; [now apply Hkeep | | now apply Hkeep].
-      destruct (add_blocked_cube lit St st1 c FInf) as [st2 |] eqn:Eadd; [| discriminate H].
+      destruct (solve (p_q lit St EM st) q) as [m | core | | e] eqn:Ea; cbn [truthful] in Htr; [now apply Hkeep | | now apply Hkeep | discriminate H].
+      destruct (add_blocked_cube lit St EM cmd_fail st1 c FInf) as [st2 | ea la | na |] eqn:Eadd; try discriminate H.
       destruct (add_inf_spec _ _ _ Eadd) as (Ha2 & Hfr2).
       assert (HN2 : frontier' st2 = frontier' st1) by (unfold frontier'; now rewrite Hfr2).
       assert (Hinv2 : pinv st2).
@@ -1070,17 +1157,17 @@ Section PdrImplProofs.
 
   Lemma propagate_spec st b st' :
     pinv st -> book st -> 1 <= frontier' st ->
-    propagate_blocked_cubes lit lit_eqb St cube_of_state solve gen_on st = Ok (b, st') ->
+    propagate_blocked_cubes lit lit_eqb St cube_of_state EM solve cmd_fail gen_on st = Ok (b, st') ->
     (b = true -> safe) /\ (b = false -> pinv st' /\ book st' /\ frontier' st' = frontier' st).
   Proof.
     intros Hinv Hb HN. unfold propagate_blocked_cubes. rewrite frontier_eq.
-    destruct (prop_frames lit lit_eqb St cube_of_state solve gen_on (pred (frontier' st)) st 1) as [[b1 st1] | e | n |] eqn:Ep; try discriminate.
+    destruct (prop_frames lit lit_eqb St cube_of_state EM solve cmd_fail gen_on (pred (frontier' st)) st 1) as [[b1 st1] | e | n |] eqn:Ep; try discriminate.
     apply prop_frames_spec in Ep; [| exact Hinv | exact Hb | lia | lia].
     destruct Ep as [Ht Hf]. destruct b1.
     - intros H. inversion H; subst. split; [intros _; now apply Ht | discriminate].
     - destruct (Hf eq_refl) as (Hinv1 & Hb1 & HN1).
       rewrite <- HN1. rewrite <- HN1 in HN.
-      destruct (prop_last lit St solve (set_frame lit St st1 (frontier' st1) []) (frontier' st1) (fcubes st1 (frontier' st1))) as [st2 | e | n |] eqn:El; try discriminate.
+      destruct (prop_last lit St EM solve cmd_fail (set_frame lit St EM st1 (frontier' st1) []) (frontier' st1) (fcubes st1 (frontier' st1))) as [st2 | e | n |] eqn:El; try discriminate.
       intros H. inversion H; subst. split; [discriminate |]. intros _.
       destruct (set_frame_spec st1 (frontier' st1) [] ltac:(lia)) as (Ha0 & HN0 & _).
       apply prop_last_spec in El.
@@ -1093,12 +1180,12 @@ Section PdrImplProofs.
   Qed.
 
   (** ** the main loop *)
-  Lemma init_state_pinv : pinv (init_state lit St).
+  Lemma init_state_pinv : pinv (init_state lit St EM).
   Proof.
     constructor; cbn; try (intros; contradiction); try (intros; lia).
   Qed.
 
-  Lemma init_state_book : book (init_state lit St).
+  Lemma init_state_book : book (init_state lit St EM).
   Proof.
     constructor.
     - intros k c _ Hc. unfold frame_cubes in Hc. cbn in Hc. destruct (pred k); destruct Hc.
@@ -1109,14 +1196,14 @@ Section PdrImplProofs.
   Definition verdict_ok (v : verdict W) (st' : pst) : Prop :=
     match v with
     | VSuccess _ => safe
-    | VFail _ w => bmc_result = BmcFail W w /\ exists d, d <= MAX_FRAMES /\ unsafe_at d
+    | VFail _ w => bmc_result = BmcFail W EM w /\ exists d, d <= MAX_FRAMES /\ unsafe_at d
     | VUnknown _ => MAX_FRAMES < frontier' st' \/
-                    (bmc_result = BmcOther W /\ exists d, d <= MAX_FRAMES /\ unsafe_at d)
+                    (bmc_result = BmcOther W EM /\ exists d, d <= MAX_FRAMES /\ unsafe_at d)
     end.
 
   Lemma pdr_loop_spec fuel bf : forall st v st',
       pinv st -> book st ->
-      pdr_loop lit lit_eqb St cube_of_state W solve gen_on bmc_result fuel bf st = Ok (v, st') ->
+      pdr_loop lit lit_eqb St cube_of_state W EM solve cmd_fail gen_on bmc_result fuel bf st = Ok (v, st') ->
       verdict_ok v st'.
   Proof.
     induction fuel as [| fuel IH]; intros st v st' Hinv Hb H; [discriminate H |].
@@ -1124,7 +1211,7 @@ Section PdrImplProofs.
     destruct (frontier' st <=? MAX_FRAMES) eqn:Emax.
     2:{ inversion H; subst. left. now apply Nat.leb_gt. }
     apply Nat.leb_le in Emax.
-    destruct (get_bad_cube lit St cube_of_state solve st) as [[ob st1] | e | n |] eqn:Eg; try discriminate H.
+    destruct (get_bad_cube lit St cube_of_state EM solve st) as [[ob st1] | e | n |] eqn:Eg; try discriminate H.
     destruct (get_bad_cube_spec _ _ _ Eg) as (Hsem & Hob).
     assert (HN1 : frontier' st1 = frontier' st) by apply (sem_eq_frontier st st1 Hsem).
     assert (Hinv1 : pinv st1) by now apply (sem_eq_pinv st).
@@ -1138,7 +1225,7 @@ Section PdrImplProofs.
         * exact (IH st2 v st' Hinv2 Hb2 H).
         * assert (Hu : exists d, d <= MAX_FRAMES /\ unsafe_at d).
           { exists (frontier' st1). split; [lia | now apply Hcex]. }
-          destruct bmc_result as [w |] eqn:Ebmc; inversion H; subst; cbn [verdict_ok].
+          destruct bmc_result as [w | | eb] eqn:Ebmc; inversion H; subst; cbn [verdict_ok].
           -- now split.
           -- right. now split.
       + constructor; [| constructor]. exists m. split; [reflexivity |]. cbn [snd].
@@ -1146,17 +1233,19 @@ Section PdrImplProofs.
         * left. split; [reflexivity | now apply H0].
         * split; [lia |]. rewrite Nat.sub_diag. constructor. apply H1. lia.
     - destruct Hob as (H0 & H1).
-      assert (Hinva : pinv (add_frame lit St st1)).
-      { apply add_frame_preserves; [exact Hinv1 | |].
+      destruct (add_frame lit St EM cmd_fail st1) as [sta | ea la | na |] eqn:Eaf; try discriminate H.
+      assert (Hinva : pinv sta).
+      { apply (add_frame_preserves st1 sta Hinv1 Eaf).
         - rewrite HN1. exact H0.
         - rewrite HN1. intros HN s Hf. apply (H1 HN s). now apply (sem_eq_Fc st st1). }
-      assert (Hba : book (add_frame lit St st1)) by now apply add_frame_book.
+      assert (Hba : book sta) by now apply (add_frame_book st1).
+      assert (HNa : 1 <= frontier' sta).
+      { destruct (add_frame_spec _ _ Eaf) as (_ & Hfr & _). unfold frontier'. rewrite Hfr, app_length. cbn. lia. }
       match type of H with (match ?X with _ => _ end) = _ => destruct X as [[fx st2] | e | n |] eqn:Ep end; try discriminate H.
-      apply propagate_spec in Ep; [| exact Hinva | exact Hba |].
-      + destruct Ep as [Ht Hf]. destruct fx.
-        * inversion H; subst. cbn [verdict_ok]. now apply Ht.
-        * destruct (Hf eq_refl) as (Hinv2 & Hb2 & _). exact (IH st2 v st' Hinv2 Hb2 H).
-      + unfold frontier', add_frame. cbn [p_frames]. rewrite app_length. cbn. lia.
+      apply propagate_spec in Ep; [| exact Hinva | exact Hba | exact HNa].
+      destruct Ep as [Ht Hf]. destruct fx.
+      + inversion H; subst. cbn [verdict_ok]. now apply Ht.
+      + destruct (Hf eq_refl) as (Hinv2 & Hb2 & _). exact (IH st2 v st' Hinv2 Hb2 H).
   Qed.
 
   (** a system without bad-state expressions *)
@@ -1164,11 +1253,13 @@ Section PdrImplProofs.
 
   Theorem pdr_model_sound fuel bf v st' :
     (has_bads = false -> no_bads) ->
-    pdr lit lit_eqb St cube_of_state W solve gen_on has_bads bmc_result fuel bf = Ok (v, st') ->
+    pdr lit lit_eqb St cube_of_state W EM solve cmd_fail n_init gen_on has_bads bmc_result fuel bf = Ok (v, st') ->
     verdict_ok v st'.
   Proof.
     intros Hnb. unfold pdr. destruct has_bads.
-    - apply pdr_loop_spec; [apply init_state_pinv | apply init_state_book].
+    - destruct (cmds lit St EM cmd_fail n_init (init_state lit St EM)) as [st0 | e0 l0 | n0 |] eqn:Ec; try discriminate.
+      pose proof (cmds_spec _ _ _ Ec) as Hs0.
+      apply pdr_loop_spec; [apply (sem_eq_pinv _ _ Hs0), init_state_pinv | apply (sem_eq_book _ _ Hs0), init_state_book].
     - intros H. inversion H; subst. cbn [verdict_ok]. intros d Hu.
       destruct d as [| d]; cbn [unsafe_at] in Hu.
       + destruct Hu as (s & Hs). destruct (Hnb eq_refl s) as [E _]. congruence.
@@ -1177,10 +1268,19 @@ Section PdrImplProofs.
 
   (** ** definiteness: under a truthful solver that never answers "unknown" the model neither
       returns an error nor panics (every [Rust] panic / [Err] path of pdr.rs is unreachable) *)
-  Definition total_solver : Prop := forall n q, solve n q <> AUnknown lit St.
+  Definition total_solver : Prop :=
+    (forall n q, solve n q <> AUnknown lit St EM) /\
+    (forall n q e, solve n q <> AErr lit St EM e) /\
+    (forall n, cmd_fail n = None).
 
-  Definition good {A} (r : res A) : Prop :=
-    match r with Ok _ => True | Fuel => True | Err _ => False | Panic _ => False end.
+  Definition good {A} (r : res lit St EM A) : Prop :=
+    match r with Ok _ => True | Fuel => True | Err _ _ => False | Panic _ => False end.
+
+  Lemma cmds_ok n : forall st, total_solver -> exists st', cmds lit St EM cmd_fail n st = Ok st'.
+  Proof.
+    induction n as [| n IH]; intros st Htot; [now eexists |]. cbn [cmds].
+    destruct Htot as (H1 & H2 & H3). rewrite H3. apply IH. now repeat split.
+  Qed.
 
   Lemma filter_len {A} (f : A -> bool) l : length (filter f l) <= length l.
   Proof. induction l as [| a l IH]; cbn; [lia |]. destruct (f a); cbn; lia. Qed.
@@ -1203,34 +1303,42 @@ Section PdrImplProofs.
 
   Lemma fix_loop_ok fuel : forall st gen lm first,
       total_solver -> excl_post (gen ++ lm) -> length lm < fuel ->
-      exists r, fix_loop lit lit_eqb St solve fuel st gen lm first = Ok r.
+      exists r, fix_loop lit lit_eqb St EM solve cmd_fail fuel st gen lm first = Ok r.
   Proof.
     induction fuel as [| fuel IH]; intros st gen lm first Htot Hex Hlen; [lia |].
     cbn [fix_loop]. rewrite ask_spec.
-    pose proof (solver_ok (p_q lit St st) (init_query lit KGenFix gen lm true)) as Htr.
-    pose proof (Htot (p_q lit St st) (init_query lit KGenFix gen lm true)) as Hnu.
-    destruct (solve (p_q lit St st) (init_query lit KGenFix gen lm true)) as [m | core |]; cbn [truthful] in Htr.
+    pose proof (solver_ok (p_q lit St EM st) (init_query lit KGenFix gen lm true)) as Htr.
+    pose proof (proj1 Htot (p_q lit St EM st) (init_query lit KGenFix gen lm true)) as Hnu.
+    pose proof (proj1 (proj2 Htot) (p_q lit St EM st) (init_query lit KGenFix gen lm true)) as Hne.
+    set (st1 := asked st (init_query lit KGenFix gen lm true)).
+    destruct (solve (p_q lit St EM st) (init_query lit KGenFix gen lm true)) as [m | core | | e]; cbn [truthful] in Htr.
     - exfalso. now apply (init_sat_post _ _ _ _ _ Htr).
-    - destruct (Nat.eqb_spec (length (filter (fun l => lit_mem lit lit_eqb l core) lm)) (length lm)) as [E | E].
-      + now eexists.
-      + apply IH; [exact Htot | | pose proof (filter_len (fun l => lit_mem lit lit_eqb l core) lm); lia].
+    - set (lm' := filter (fun l => lit_mem lit lit_eqb l core) lm).
+      destruct (cmds_ok (length lm - length lm') st1 Htot) as (st2 & ->).
+      destruct (Nat.eqb_spec (length lm') (length lm)) as [E | E].
+      + destruct (cmds_ok (length lm') st2 Htot) as (st3 & ->). now eexists.
+      + apply IH; [exact Htot | | pose proof (filter_len (fun l => lit_mem lit lit_eqb l core) lm); fold lm' in H; lia].
         apply (init_query_unsat KGenFix gen lm core). exact Htr.
     - now contradiction Hnu.
+    - now contradiction (Hne e).
   Qed.
 
   Lemma fix_gen_cube_ok st gen rm :
     total_solver -> excl_post gen \/ excl_post (gen ++ rm) ->
-    exists r, fix_gen_cube lit lit_eqb St solve st gen rm = Ok r.
+    exists r, fix_gen_cube lit lit_eqb St EM solve cmd_fail st gen rm = Ok r.
   Proof.
     intros Htot Hex. unfold fix_gen_cube. rewrite ask_spec.
-    pose proof (solver_ok (p_q lit St st) (init_query lit KGenCheck gen [] false)) as Htr.
-    pose proof (Htot (p_q lit St st) (init_query lit KGenCheck gen [] false)) as Hnu.
-    destruct (solve (p_q lit St st) (init_query lit KGenCheck gen [] false)) as [m | core |]; cbn [truthful] in Htr.
+    pose proof (solver_ok (p_q lit St EM st) (init_query lit KGenCheck gen [] false)) as Htr.
+    pose proof (proj1 Htot (p_q lit St EM st) (init_query lit KGenCheck gen [] false)) as Hnu.
+    pose proof (proj1 (proj2 Htot) (p_q lit St EM st) (init_query lit KGenCheck gen [] false)) as Hne.
+    destruct (solve (p_q lit St EM st) (init_query lit KGenCheck gen [] false)) as [m | core | | e]; cbn [truthful] in Htr.
     - destruct Hex as [Hex | Hex].
       + exfalso. apply (init_sat_post _ _ _ _ _ Htr). now rewrite app_nil_r.
-      + apply fix_loop_ok; [exact Htot | exact Hex | lia].
+      + destruct (cmds_ok (2 * length rm) (new_acts lit St EM (asked st (init_query lit KGenCheck gen [] false)) (length rm)) Htot) as (st2 & ->).
+        apply fix_loop_ok; [exact Htot | exact Hex | lia].
     - now eexists.
     - now contradiction Hnu.
+    - now contradiction (Hne e).
   Qed.
 
   Lemma push_at_ok c k : forall fs, 1 <= k <= length fs -> exists fs', push_at lit k c fs = Some fs'.
@@ -1243,94 +1351,67 @@ Section PdrImplProofs.
       cbn [length] in Hk. destruct (IH r ltac:(lia)) as (r' & ->). now eexists.
   Qed.
 
-  Lemma add_finite_ok st c k : 1 <= k <= frontier' st -> exists st', add_blocked_cube lit St st c (FFinite k) = Some st'.
+  Lemma add_finite_ok st c k : total_solver -> 1 <= k <= frontier' st ->
+    exists st', add_blocked_cube lit St EM cmd_fail st c (FFinite k) = Ok st'.
   Proof.
-    intros Hk. cbn [add_blocked_cube]. destruct (push_at_ok c k (p_frames lit St st) Hk) as (fs & ->). now eexists.
+    intros Htot Hk. unfold add_blocked_cube. cbn [record_cube].
+    destruct (push_at_ok c k (p_frames lit St EM st) Hk) as (fs & ->).
+    destruct (cmds_ok 1 st Htot) as (st1 & Ec). rewrite Ec.
+    destruct (cmds_spec _ _ _ Ec) as (Hf & _ & _). rewrite Hf.
+    destruct (push_at_ok c k (p_frames lit St EM st) Hk) as (fs' & ->). now eexists.
+  Qed.
+
+  Lemma add_inf_ok st c : total_solver -> exists st', add_blocked_cube lit St EM cmd_fail st c FInf = Ok st'.
+  Proof.
+    intros Htot. unfold add_blocked_cube. cbn [record_cube].
+    destruct (cmds_ok 1 st Htot) as (st1 & ->). now eexists.
   Qed.
 
   Lemma rel_ind_ok st c k ext :
     total_solver -> 1 <= k <= frontier' st -> (gen_on = true -> k = 1 \/ excl_post c) ->
-    exists r st', rel_ind lit lit_eqb St cube_of_state solve gen_on st c (FFinite k) ext = Ok (r, st') /\
+    exists r st', rel_ind lit lit_eqb St cube_of_state EM solve cmd_fail gen_on st c (FFinite k) ext = Ok (r, st') /\
                   r <> RUnknown lit.
   Proof.
-    intros Htot Hk Hgen.
-    destruct (rel_ind lit lit_eqb St cube_of_state solve gen_on st c (FFinite k) ext) as [[r st'] | e | n |] eqn:Er.
-    - exists r, st'. split; [reflexivity |]. intros ->.
-      (* RUnknown only comes from an unknown answer *)
-      unfold rel_ind in Er. destruct (decrement (FFinite k)) as [prev |]; [| discriminate Er].
-      destruct (from_of lit St st prev) as [from |]; [| discriminate Er]. rewrite ask_spec in Er.
-      match type of Er with context [solve ?n ?q] => pose proof (Htot n q) as Hnu; destruct (solve n q) as [m | core |] end.
-      + discriminate Er.
-      + destruct gen_on; [| discriminate Er].
-        match type of Er with context [fix_gen_cube ?a1 ?a2 ?a3 ?a4 ?a5 ?a6 ?a7] => destruct (fix_gen_cube a1 a2 a3 a4 a5 a6 a7) as [[fx st2] | e0 | n0 |] end; discriminate Er.
-      + now contradiction Hnu.
-    - (* an error can only come from fix_gen_cube or an unknown answer: excluded *)
-      exfalso. unfold rel_ind in Er.
-      destruct (decrement (FFinite k)) as [prev |] eqn:Ed; [| discriminate Er].
-      destruct (from_of lit St st prev) as [from |] eqn:Ef; [| discriminate Er]. rewrite ask_spec in Er.
-      set (st0 := new_acts lit St st (length c)) in *.
-      match type of Er with context [solve ?n ?q] => pose proof (solver_ok n q) as Htr; pose proof (Htot n q) as Hnu;
-                                                     set (qq := q) in *; destruct (solve n qq) as [m | core |] eqn:Ea end;
-        [discriminate Er | | discriminate Er].
-      destruct gen_on eqn:Eg; [| discriminate Er].
-      set (g := filter (fun l => lit_mem lit lit_eqb l core) c) in *.
-      set (rm := filter (fun l => negb (lit_mem lit lit_eqb l core)) c) in *.
-      destruct (fix_gen_cube_ok (asked st0 qq) g rm Htot) as (r & Hr); [| rewrite Hr in Er; destruct r; discriminate Er].
-      destruct (Hgen eq_refl) as [-> | Hex].
-      + left. cbn in Ed. inversion Ed; subst prev. cbn [from_of] in Ef. inversion Ef; subst from.
-        cbn [truthful] in Htr. intros s0 s' Hs. destruct (ch g s') eqn:E; [| reflexivity]. exfalso.
-        apply (Htr s0). unfold qq, restrict, q_model. cbn. split; [exact I |]. split; [destruct ext; exact I |].
-        exists s'. now split.
-      + right. intros s0 s' Hs. unfold g, rm. rewrite ch_partition. now apply (Hex s0 s').
-    - exfalso. unfold rel_ind in Er.
-      destruct (decrement (FFinite k)) as [prev |] eqn:Ed.
-      2:{ destruct k as [| [| k']]; [lia | discriminate Ed | discriminate Ed]. }
-      destruct (from_of lit St st prev) as [from |] eqn:Ef.
-      2:{ destruct k as [| [| k']]; [lia | cbn in Ed; inversion Ed; subst; discriminate Ef |].
-          cbn in Ed. inversion Ed; subst. cbn [from_of] in Ef. rewrite frontier_eq in Ef.
-          destruct (Nat.leb_spec (S k') (frontier' st)); [discriminate Ef | lia]. }
-      rewrite ask_spec in Er.
-      set (st0 := new_acts lit St st (length c)) in *.
-      match type of Er with context [solve ?n ?q] => pose proof (solver_ok n q) as Htr; pose proof (Htot n q) as Hnu;
-                                                     set (qq := q) in *; destruct (solve n qq) as [m | core |] eqn:Ea end;
-        [discriminate Er | | discriminate Er].
-      destruct gen_on eqn:Eg; [| discriminate Er].
-      set (g := filter (fun l => lit_mem lit lit_eqb l core) c) in *.
-      set (rm := filter (fun l => negb (lit_mem lit lit_eqb l core)) c) in *.
-      destruct (fix_gen_cube_ok (asked st0 qq) g rm Htot) as (r & Hr); [| rewrite Hr in Er; destruct r; discriminate Er].
-      destruct (Hgen eq_refl) as [-> | Hex].
-      + left. cbn in Ed. inversion Ed; subst prev. cbn [from_of] in Ef. inversion Ef; subst from.
-        cbn [truthful] in Htr. intros s0 s' Hs. destruct (ch g s') eqn:E; [| reflexivity]. exfalso.
-        apply (Htr s0). unfold qq, restrict, q_model. cbn. split; [exact I |]. split; [destruct ext; exact I |].
-        exists s'. now split.
-      + right. intros s0 s' Hs. unfold g, rm. rewrite ch_partition. now apply (Hex s0 s').
-    - (* the fuel of fix_gen_cube is computed and suffices *)
-      exfalso. unfold rel_ind in Er.
-      destruct (decrement (FFinite k)) as [prev |] eqn:Ed; [| discriminate Er].
-      destruct (from_of lit St st prev) as [from |] eqn:Ef; [| discriminate Er]. rewrite ask_spec in Er.
-      set (st0 := new_acts lit St st (length c)) in *.
-      match type of Er with context [solve ?n ?q] => pose proof (solver_ok n q) as Htr; pose proof (Htot n q) as Hnu;
-                                                     set (qq := q) in *; destruct (solve n qq) as [m | core |] eqn:Ea end;
-        [discriminate Er | | discriminate Er].
-      destruct gen_on eqn:Eg; [| discriminate Er].
-      set (g := filter (fun l => lit_mem lit lit_eqb l core) c) in *.
-      set (rm := filter (fun l => negb (lit_mem lit lit_eqb l core)) c) in *.
-      destruct (fix_gen_cube_ok (asked st0 qq) g rm Htot) as (r & Hr); [| rewrite Hr in Er; destruct r; discriminate Er].
-      destruct (Hgen eq_refl) as [-> | Hex].
-      + left. cbn in Ed. inversion Ed; subst prev. cbn [from_of] in Ef. inversion Ef; subst from.
-        cbn [truthful] in Htr. intros s0 s' Hs. destruct (ch g s') eqn:E; [| reflexivity]. exfalso.
-        apply (Htr s0). unfold qq, restrict, q_model. cbn. split; [exact I |]. split; [destruct ext; exact I |].
-        exists s'. now split.
-      + right. intros s0 s' Hs. unfold g, rm. rewrite ch_partition. now apply (Hex s0 s').
+    intros Htot Hk Hgen. unfold rel_ind.
+    assert (Hd : exists prev, decrement (FFinite k) = Some prev /\ (k = 1 -> prev = FInit) /\
+                              exists from, from_of lit St EM st prev = Some from).
+    { destruct k as [| [| k']]; [lia | |].
+      - exists FInit. split; [reflexivity |]. split; [reflexivity | now eexists].
+      - exists (FFinite (S k')). split; [reflexivity |]. split; [lia |]. cbn [from_of]. rewrite frontier_eq.
+        destruct (Nat.leb_spec (S k') (frontier' st)); [now eexists | lia]. }
+    destruct Hd as (prev & -> & Hk1 & from & Ef). rewrite Ef.
+    destruct (cmds_ok (2 * length c) (new_acts lit St EM st (length c)) Htot) as (st0 & ->).
+    rewrite ask_spec. fold (relq prev from c ext c).
+    pose proof (solver_ok (p_q lit St EM st0) (relq prev from c ext c)) as Htr.
+    pose proof (proj1 Htot (p_q lit St EM st0) (relq prev from c ext c)) as Hnu.
+    pose proof (proj1 (proj2 Htot) (p_q lit St EM st0) (relq prev from c ext c)) as Hne.
+    set (st1 := asked st0 (relq prev from c ext c)). cbv zeta.
+    destruct (solve (p_q lit St EM st0) (relq prev from c ext c)) as [m | core | | e] eqn:Ea; cbn [truthful] in Htr.
+    - destruct (cmds_ok (length c) st1 Htot) as (st3 & ->). eexists _, _. split; [reflexivity | discriminate].
+    - destruct gen_on eqn:Eg.
+      + set (g := filter (fun l => lit_mem lit lit_eqb l core) c) in *.
+        set (rm := filter (fun l => negb (lit_mem lit lit_eqb l core)) c) in *.
+        destruct (fix_gen_cube_ok st1 g rm Htot) as ([fx st2] & ->).
+        * destruct (Hgen eq_refl) as [-> | Hex].
+          -- left. rewrite (Hk1 eq_refl) in *. cbn [from_of] in Ef. inversion Ef; subst from.
+             intros s0 s' Hs. destruct (ch g s') eqn:E; [| reflexivity]. exfalso.
+             unfold relq in Htr at 1. cbn [q_core] in Htr. rewrite Eg in Htr. apply (Htr s0).
+             change (restrict (relq FInit (FromInit lit) c ext c) core) with (relq FInit (FromInit lit) c ext g).
+             unfold q_model, relq. cbn. split; [exact I |]. split; [destruct ext; exact I |]. exists s'. now split.
+          -- right. intros s0 s' Hs. unfold g, rm. rewrite ch_partition. now apply (Hex s0 s').
+        * destruct (cmds_ok (length c) st2 Htot) as (st3 & ->). eexists _, _. split; [reflexivity | discriminate].
+      + destruct (cmds_ok (length c) st1 Htot) as (st3 & ->). eexists _, _. split; [reflexivity | discriminate].
+    - now contradiction Hnu.
+    - now contradiction (Hne e).
   Qed.
 
   Lemma push_loop_ok fuel : forall st cand t,
       total_solver -> 2 <= t -> t <= S (frontier' st) -> (gen_on = true -> excl_post cand) ->
       S (frontier' st) - t < fuel ->
-      exists r, push_loop lit lit_eqb St cube_of_state solve gen_on fuel st cand (FFinite t) = Ok r.
+      exists r, push_loop lit lit_eqb St cube_of_state EM solve cmd_fail gen_on fuel st cand (FFinite t) = Ok r.
   Proof.
     induction fuel as [| fuel IH]; intros st cand t Htot Ht HtS Hgen Hfuel; [lia |].
-    cbn [push_loop]. destruct (fid_le (FFinite t) (frontier_id lit St st)) eqn:Ele; [| now eexists].
+    cbn [push_loop]. destruct (fid_le (FFinite t) (frontier_id lit St EM st)) eqn:Ele; [| now eexists].
     apply (fid_le_frontier st t ltac:(lia)) in Ele.
     destruct (rel_ind_ok st cand t true Htot ltac:(lia) ltac:(intros Hg; right; now apply Hgen)) as (r & st1 & Hr & Hnu).
     rewrite Hr. destruct (rel_ind_spec _ _ _ _ _ _ Hr) as (_ & _ & Hsem & _).
@@ -1340,7 +1421,7 @@ Section PdrImplProofs.
 
   Lemma block_loop_good fuel : forall st work,
       total_solver -> pinv st -> book st -> Forall (obl_ok (frontier' st)) work ->
-      good (block_loop lit lit_eqb St cube_of_state solve gen_on fuel st work).
+      good (block_loop lit lit_eqb St cube_of_state EM solve cmd_fail gen_on fuel st work).
   Proof.
     induction fuel as [| fuel IH]; intros st work Htot Hinv Hbook Hwork; [exact I |].
     cbn [block_loop].
@@ -1384,13 +1465,13 @@ Section PdrImplProofs.
           + apply Hex. discriminate.
           + apply (obl_not_post st c (S (S k)) Hinv Hobl). lia. }
       cbn [increment].
-      destruct (push_loop_ok (S (S (frontier lit St st1))) st1 cand (S j) Htot ltac:(lia) ltac:(rewrite HN1; lia)
+      destruct (push_loop_ok (S (S (frontier lit St EM st1))) st1 cand (S j) Htot ltac:(lia) ltac:(rewrite HN1; lia)
                              ltac:(intros _; exact Hex) ltac:(unfold frontier, frontier' in *; lia)) as ([tf' st2] & Hpush).
       rewrite Hpush.
       destruct (push_loop_spec _ _ _ _ _ _ Hpush ltac:(lia) ltac:(rewrite HN1; lia)) as (Hsem2 & t' & -> & Hle & HleN & _).
       destruct t' as [| [| t'']]; try lia. cbn [decrement].
       assert (HN2 : frontier' st2 = frontier' st) by (rewrite (sem_eq_frontier st1 st2 Hsem2); exact HN1).
-      destruct (add_finite_ok st2 cand (S t'') ltac:(rewrite HN2, <- HN1; lia)) as (st3 & Hadd).
+      destruct (add_finite_ok st2 cand (S t'') Htot ltac:(rewrite HN2, <- HN1; lia)) as (st3 & Hadd).
       rewrite Hadd.
       (* invariants of st3: from the specification applied to a run that stops right after this step *)
       assert (H3 : pinv st3 /\ book st3 /\ frontier' st3 = frontier' st).
@@ -1419,11 +1500,11 @@ Section PdrImplProofs.
   Lemma prop_cubes_step id c r st rr st1 :
     pinv st -> bookx st id (c :: r) -> (forall c', In c' (c :: r) -> In (FFinite id, c') (asserted st)) ->
     1 <= id -> S id <= frontier' st ->
-    rel_ind lit lit_eqb St cube_of_state solve gen_on st c (FFinite (S id)) false = Ok (rr, st1) ->
+    rel_ind lit lit_eqb St cube_of_state EM solve cmd_fail gen_on st c (FFinite (S id)) false = Ok (rr, st1) ->
     let next_ok st2 := pinv st2 /\ bookx st2 id r /\ (forall c', In c' r -> In (FFinite id, c') (asserted st2)) /\
                        frontier' st2 = frontier' st in
-    (forall og st2, rr = RUnsat lit og -> add_blocked_cube lit St st1 c (FFinite (S id)) = Some st2 -> next_ok st2) /\
-    ((forall og, rr <> RUnsat lit og) -> next_ok (keep_cube lit St st1 id c)) /\
+    (forall og st2, rr = RUnsat lit og -> add_blocked_cube lit St EM cmd_fail st1 c (FFinite (S id)) = Ok st2 -> next_ok st2) /\
+    ((forall og, rr <> RUnsat lit og) -> next_ok (keep_cube lit St EM st1 id c)) /\
     1 <= S id <= frontier' st1.
   Proof.
     intros Hinv Hb Has Hid HidN Er next_ok.
@@ -1453,7 +1534,7 @@ Section PdrImplProofs.
       + intros c' Hc'. rewrite Ha2. right. apply Has1. now right.
       + now rewrite HN2.
     - intros _. destruct (set_frame_spec st1 id (fcubes st1 id ++ [c]) ltac:(lia)) as (Ha & HNk & _).
-      fold (keep_cube lit St st1 id c) in Ha, HNk. unfold next_ok. split; [| split; [| split]].
+      fold (keep_cube lit St EM st1 id c) in Ha, HNk. unfold next_ok. split; [| split; [| split]].
       + now apply (pinv_same st1).
       + apply bookx_keep; [exact Hinv1 | exact Hb1 | lia | apply Has1; now left].
       + intros c' Hc'. rewrite Ha. apply Has1. now right.
@@ -1463,7 +1544,7 @@ Section PdrImplProofs.
   Lemma prop_cubes_good id : forall cs st,
       total_solver -> pinv st -> bookx st id cs -> (forall c, In c cs -> In (FFinite id, c) (asserted st)) ->
       1 <= id -> S id <= frontier' st ->
-      good (prop_cubes lit lit_eqb St cube_of_state solve gen_on st id cs).
+      good (prop_cubes lit lit_eqb St cube_of_state EM solve cmd_fail gen_on st id cs).
   Proof.
     induction cs as [| c r IH]; intros st Htot Hinv Hb Has Hid HidN; [exact I |].
     cbn [prop_cubes].
@@ -1472,73 +1553,71 @@ Section PdrImplProofs.
     rewrite Hr. destruct (prop_cubes_step id c r st rr st1 Hinv Hb Has Hid HidN Hr) as (Hun & Hkeep & Hlvl).
     destruct rr as [p | og |]; [| | now contradiction Hnu].
     - destruct Hkeep as (H1 & H2 & H3 & H4); [discriminate |]. apply IH; try assumption. now rewrite H4.
-    - destruct (add_finite_ok st1 c (S id) Hlvl) as (st2 & Hadd). rewrite Hadd.
+    - destruct (add_finite_ok st1 c (S id) Htot Hlvl) as (st2 & Hadd). rewrite Hadd.
       destruct (Hun og st2 eq_refl Hadd) as (H1 & H2 & H3 & H4). apply IH; try assumption. now rewrite H4.
   Qed.
 
-  Lemma to_inf_ok cs : forall st, exists st', to_inf lit St st cs = Some st'.
+  Lemma to_inf_ok cs : forall st, total_solver -> exists st', to_inf lit St EM cmd_fail st cs = Ok st'.
   Proof.
-    induction cs as [| c r IH]; intros st; [now eexists |]. cbn [to_inf add_blocked_cube]. apply IH.
+    induction cs as [| c r IH]; intros st Htot; [now eexists |]. cbn [to_inf].
+    destruct (add_inf_ok st c Htot) as (st1 & ->). now apply IH.
   Qed.
 
-  Lemma cleanup_ok n : forall st iid, exists st', cleanup lit St n st iid = Some st'.
+  Lemma cleanup_ok n : forall st iid, total_solver -> exists st', cleanup lit St EM cmd_fail n st iid = Ok st'.
   Proof.
-    induction n as [| n IH]; intros st iid; [now eexists |]. cbn [cleanup].
-    destruct (to_inf_ok (fcubes st iid) (set_frame lit St st iid [])) as (st1 & ->). apply IH.
+    induction n as [| n IH]; intros st iid Htot; [now eexists |]. cbn [cleanup].
+    destruct (to_inf_ok (fcubes st iid) (set_frame lit St EM st iid []) Htot) as (st1 & ->). now apply IH.
   Qed.
 
   Lemma prop_frames_good n : forall st id,
       total_solver -> pinv st -> book st -> 1 <= id -> id + n = frontier' st ->
-      good (prop_frames lit lit_eqb St cube_of_state solve gen_on n st id).
+      good (prop_frames lit lit_eqb St cube_of_state EM solve cmd_fail gen_on n st id).
   Proof.
     induction n as [| n IH]; intros st id Htot Hinv Hb Hid HidN; [exact I |].
     cbn [prop_frames].
     destruct (set_frame_spec st id [] ltac:(lia)) as (Ha0 & HN0 & _).
-    assert (Hpre : pinv (set_frame lit St st id []) /\ bookx (set_frame lit St st id []) id (fcubes st id) /\
-                   (forall c, In c (fcubes st id) -> In (FFinite id, c) (asserted (set_frame lit St st id []))) /\
-                   S id <= frontier' (set_frame lit St st id [])).
+    assert (Hpre : pinv (set_frame lit St EM st id []) /\ bookx (set_frame lit St EM st id []) id (fcubes st id) /\
+                   (forall c, In c (fcubes st id) -> In (FFinite id, c) (asserted (set_frame lit St EM st id []))) /\
+                   S id <= frontier' (set_frame lit St EM st id [])).
     { split; [now apply (pinv_same st) |]. split; [apply bookx_take; [exact Hinv | exact Hb | lia] |].
       split; [intros c Hc; rewrite Ha0; apply (bk_in st Hb); [lia | exact Hc] | rewrite HN0; lia]. }
     destruct Hpre as (P1 & P2 & P3 & P4).
     pose proof (prop_cubes_good id (fcubes st id) _ Htot P1 P2 P3 Hid P4) as Hg.
-    destruct (prop_cubes lit lit_eqb St cube_of_state solve gen_on (set_frame lit St st id []) id (fcubes st id)) as [st1 | e | m |] eqn:Ep;
+    destruct (prop_cubes lit lit_eqb St cube_of_state EM solve cmd_fail gen_on (set_frame lit St EM st id []) id (fcubes st id)) as [st1 | e | m |] eqn:Ep;
       try exact Hg; try exact I.
     destruct (prop_cubes_spec id _ _ _ P1 P2 P3 Hid P4 Ep) as (Hinv1 & Hb1 & HN1). apply book_bookx in Hb1.
     destruct (fcubes st1 id) as [| c0 r0].
-    - destruct (cleanup_ok (frontier lit St st1 - id) st1 (S id)) as (st2 & ->). exact I.
+    - destruct (cleanup_ok (frontier lit St EM st1 - id) st1 (S id) Htot) as (st2 & ->). exact I.
     - apply IH; try assumption; lia.
   Qed.
 
   Lemma prop_last_good N : forall cs st,
       total_solver -> pinv st -> bookx st N cs -> (forall c, In c cs -> In (FFinite N, c) (asserted st)) ->
       1 <= N -> N = frontier' st ->
-      good (prop_last lit St solve st N cs).
+      good (prop_last lit St EM solve cmd_fail st N cs).
   Proof.
     induction cs as [| c r IH]; intros st Htot Hinv Hb Has HN1 HN; [exact I |].
     (* run the specification on the two possible one-step continuations *)
     cbn [prop_last]. rewrite ask_spec.
-    set (q := {| q_kind := KInf; q_frame := FInf; q_from := FromClauses lit (clauses_inf lit St st); q_bad := false;
+    set (q := {| q_kind := KInf; q_frame := FInf; q_from := FromClauses lit (clauses_inf lit St EM st); q_bad := false;
                  q_neg := Some c; q_fixed := c; q_sel := []; q_core := false |}).
-    pose proof (solver_ok (p_q lit St st) q) as Htr.
+    pose proof (solver_ok (p_q lit St EM st) q) as Htr.
     pose proof (asked_sem st q) as Hsem. set (st1 := asked st q) in *.
     assert (HNa : frontier' st1 = frontier' st) by apply (sem_eq_frontier st st1 Hsem).
     assert (Hinv1 : pinv st1) by now apply (sem_eq_pinv st).
     assert (Hb1 : bookx st1 N (c :: r)) by now apply (sem_eq_bookx st).
     assert (Has1 : forall c', In c' (c :: r) -> In (FFinite N, c') (asserted st1)).
     { intros c' Hc'. destruct Hsem as (_ & _ & Ha). rewrite Ha. now apply Has. }
-    assert (Hkeep : good (prop_last lit St solve (keep_cube lit St st1 N c) N r)).
+    assert (Hkeep : good (prop_last lit St EM solve cmd_fail (keep_cube lit St EM st1 N c) N r)).
     { destruct (set_frame_spec st1 N (fcubes st1 N ++ [c]) ltac:(lia)) as (Ha & HNk & _).
-      fold (keep_cube lit St st1 N c) in Ha, HNk. apply IH; try assumption.
+      fold (keep_cube lit St EM st1 N c) in Ha, HNk. apply IH; try assumption.
       - now apply (pinv_same st1).
       - apply bookx_keep; [exact Hinv1 | exact Hb1 | lia | apply Has1; now left].
       - intros c' Hc'. rewrite Ha. apply Has1. now right.
       - rewrite HNk. lia. }
-    destruct (solve (p_q lit St st) q) as [m | core |] eqn:Ea; cbn [truthful] in Htr; [exact Hkeep | | exact Hkeep].
-    cbn [add_blocked_cube].
-    set (st2 := {| p_frames := p_frames lit St st1; p_inf := p_inf lit St st1 ++ [c];
-                   p_asserted := (FInf, c) :: asserted st1; p_next_act := p_next_act lit St st1;
-                   p_q := p_q lit St st1; p_log := EvBlock lit St FInf c :: p_log lit St st1 |}).
-    assert (Eadd : add_blocked_cube lit St st1 c FInf = Some st2) by reflexivity.
+    pose proof (proj1 (proj2 Htot) (p_q lit St EM st) q) as Hne.
+    destruct (solve (p_q lit St EM st) q) as [m | core | | e] eqn:Ea; cbn [truthful] in Htr; [exact Hkeep | | exact Hkeep | now contradiction (Hne e)].
+    destruct (add_inf_ok st1 c Htot) as (st2 & Eadd). rewrite Eadd.
     destruct (add_inf_spec _ _ _ Eadd) as (Ha2 & Hfr2).
     assert (HN2 : frontier' st2 = frontier' st1) by (unfold frontier'; now rewrite Hfr2).
     apply IH; try assumption.
@@ -1552,55 +1631,60 @@ Section PdrImplProofs.
       + now apply (add_inf_bookx st1 c st2).
       + exists FInf. split; [rewrite Ha2; now left | reflexivity].
     - intros c' Hc'. rewrite Ha2. right. apply Has1. now right.
+    - rewrite HN2. lia.
   Qed.
 
   Lemma propagate_good st :
     total_solver -> pinv st -> book st -> 1 <= frontier' st ->
-    good (propagate_blocked_cubes lit lit_eqb St cube_of_state solve gen_on st).
+    good (propagate_blocked_cubes lit lit_eqb St cube_of_state EM solve cmd_fail gen_on st).
   Proof.
     intros Htot Hinv Hb HN. unfold propagate_blocked_cubes. rewrite frontier_eq.
     pose proof (prop_frames_good (pred (frontier' st)) st 1 Htot Hinv Hb ltac:(lia) ltac:(lia)) as Hg.
-    destruct (prop_frames lit lit_eqb St cube_of_state solve gen_on (pred (frontier' st)) st 1) as [[b1 st1] | e | n |] eqn:Ep;
+    destruct (prop_frames lit lit_eqb St cube_of_state EM solve cmd_fail gen_on (pred (frontier' st)) st 1) as [[b1 st1] | e | n |] eqn:Ep;
       try exact Hg; try exact I.
     apply prop_frames_spec in Ep; [| exact Hinv | exact Hb | lia | lia].
     destruct Ep as [_ Hf]. destruct b1; [exact I |].
     destruct (Hf eq_refl) as (Hinv1 & Hb1 & HN1). rewrite <- HN1. rewrite <- HN1 in HN.
     destruct (set_frame_spec st1 (frontier' st1) [] ltac:(lia)) as (Ha0 & HN0 & _).
-    assert (Hg2 : good (prop_last lit St solve (set_frame lit St st1 (frontier' st1) []) (frontier' st1) (fcubes st1 (frontier' st1)))).
+    assert (Hg2 : good (prop_last lit St EM solve cmd_fail (set_frame lit St EM st1 (frontier' st1) []) (frontier' st1) (fcubes st1 (frontier' st1)))).
     { apply prop_last_good; try assumption.
       - now apply (pinv_same st1).
       - apply bookx_take; [exact Hinv1 | exact Hb1 | lia].
       - intros c Hc. rewrite Ha0. apply (bk_in st1 Hb1); [lia | exact Hc].
       - now rewrite HN0. }
-    destruct (prop_last lit St solve (set_frame lit St st1 (frontier' st1) []) (frontier' st1) (fcubes st1 (frontier' st1))); try exact Hg2; exact I.
+    destruct (prop_last lit St EM solve cmd_fail (set_frame lit St EM st1 (frontier' st1) []) (frontier' st1) (fcubes st1 (frontier' st1))); try exact Hg2; exact I.
   Qed.
 
-  Lemma get_bad_cube_good st : total_solver -> good (get_bad_cube lit St cube_of_state solve st).
+  Lemma get_bad_cube_good st : total_solver -> good (get_bad_cube lit St cube_of_state EM solve st).
   Proof.
     intros Htot. unfold get_bad_cube.
-    assert (Hf : exists from, from_of lit St st (frontier_id lit St st) = Some from).
-    { unfold frontier_id. destruct (frontier lit St st) eqn:E; cbn [from_of]; [now eexists |].
+    assert (Hf : exists from, from_of lit St EM st (frontier_id lit St EM st) = Some from).
+    { unfold frontier_id. destruct (frontier lit St EM st) eqn:E; cbn [from_of]; [now eexists |].
       rewrite E, Nat.leb_refl. now eexists. }
     destruct Hf as (from & ->). rewrite ask_spec.
-    match goal with |- context [solve ?n ?q] => pose proof (Htot n q) as Hnu; destruct (solve n q) end; try exact I.
-    now contradiction Hnu.
+    unfold fail.
+    match goal with |- context [solve ?n ?q] => pose proof (proj1 Htot n q) as Hnu; pose proof (proj1 (proj2 Htot) n q) as Hne; destruct (solve n q) as [m | core | | e] end; try exact I.
+    - now contradiction Hnu.
+    - now contradiction (Hne e).
   Qed.
 
+  Definition bmc_ok : Prop := forall e, bmc_result <> BmcErr W EM e.
+
   Lemma pdr_loop_good fuel bf : forall st,
-      total_solver -> pinv st -> book st ->
-      good (pdr_loop lit lit_eqb St cube_of_state W solve gen_on bmc_result fuel bf st).
+      total_solver -> bmc_ok -> pinv st -> book st ->
+      good (pdr_loop lit lit_eqb St cube_of_state W EM solve cmd_fail gen_on bmc_result fuel bf st).
   Proof.
-    induction fuel as [| fuel IH]; intros st Htot Hinv Hb; [exact I |].
-    cbn [pdr_loop]. destruct (frontier lit St st <=? MAX_FRAMES); [| exact I].
+    induction fuel as [| fuel IH]; intros st Htot Hbmc Hinv Hb; [exact I |].
+    cbn [pdr_loop]. destruct (frontier lit St EM st <=? MAX_FRAMES); [| exact I].
     pose proof (get_bad_cube_good st Htot) as Hg.
-    destruct (get_bad_cube lit St cube_of_state solve st) as [[ob st1] | e | n |] eqn:Eg; try exact Hg; try exact I.
+    destruct (get_bad_cube lit St cube_of_state EM solve st) as [[ob st1] | e | n |] eqn:Eg; try exact Hg; try exact I.
     destruct (get_bad_cube_spec _ _ _ Eg) as (Hsem & Hob).
     assert (HN1 : frontier' st1 = frontier' st) by apply (sem_eq_frontier st st1 Hsem).
     assert (Hinv1 : pinv st1) by now apply (sem_eq_pinv st).
     assert (Hb1 : book st1) by now apply (sem_eq_book st).
     destruct ob as [b |].
     - destruct Hob as (m & -> & H0 & H1). unfold block_cube.
-      assert (Hwork : Forall (obl_ok (frontier' st1)) [(cube_of_state m, frontier_id lit St st1)]).
+      assert (Hwork : Forall (obl_ok (frontier' st1)) [(cube_of_state m, frontier_id lit St EM st1)]).
       { constructor; [| constructor]. exists m. split; [reflexivity |]. cbn [snd].
         unfold frontier_id. rewrite frontier_eq, HN1. destruct (frontier' st) as [| n] eqn:EN.
         - left. split; [reflexivity | now apply H0].
@@ -1609,17 +1693,21 @@ Section PdrImplProofs.
         pose proof (block_loop_good bf st1 _ Htot Hinv1 Hb1 Hwork : good X) as Hgb;
         destruct X as [[ok st2] | e | n |] eqn:Eb end; try exact Hgb; try exact I.
       apply block_loop_spec in Eb; [| exact Hinv1 | exact Hb1 | exact Hwork].
-      destruct Eb as (Hinv2 & Hb2 & _ & _). destruct ok; [now apply IH |]. destruct bmc_result; exact I.
+      destruct Eb as (Hinv2 & Hb2 & _ & _). destruct ok; [now apply IH |].
+      destruct bmc_result as [w | | eb] eqn:Ebmc; try exact I. exfalso. now apply (Hbmc eb).
     - destruct Hob as (H0 & H1).
-      assert (Hinva : pinv (add_frame lit St st1)).
-      { apply add_frame_preserves; [exact Hinv1 | |].
+      destruct (cmds_ok 1 st1 Htot) as (stc & Ec).
+      assert (Haf : exists sta, add_frame lit St EM cmd_fail st1 = Ok sta) by (unfold add_frame; rewrite Ec; now eexists).
+      destruct Haf as (sta & Eaf). rewrite Eaf.
+      assert (Hinva : pinv sta).
+      { apply (add_frame_preserves st1 sta Hinv1 Eaf).
         - rewrite HN1. exact H0.
         - rewrite HN1. intros HN s Hf. apply (H1 HN s). now apply (sem_eq_Fc st st1). }
-      assert (Hba : book (add_frame lit St st1)) by now apply add_frame_book.
-      assert (HNa : 1 <= frontier' (add_frame lit St st1)).
-      { unfold frontier', add_frame. cbn [p_frames]. rewrite app_length. cbn. lia. }
+      assert (Hba : book sta) by now apply (add_frame_book st1).
+      assert (HNa : 1 <= frontier' sta).
+      { destruct (add_frame_spec _ _ Eaf) as (_ & Hfr & _). unfold frontier'. rewrite Hfr, app_length. cbn. lia. }
       pose proof (propagate_good _ Htot Hinva Hba HNa) as Hgp.
-      destruct (propagate_blocked_cubes lit lit_eqb St cube_of_state solve gen_on (add_frame lit St st1)) as [[fx st2] | e | n |] eqn:Ep;
+      destruct (propagate_blocked_cubes lit lit_eqb St cube_of_state EM solve cmd_fail gen_on sta) as [[fx st2] | e | n |] eqn:Ep;
         try exact Hgp; try exact I.
       apply propagate_spec in Ep; [| exact Hinva | exact Hba | exact HNa].
       destruct Ep as [_ Hf]. destruct fx; [exact I |].
@@ -1628,11 +1716,13 @@ Section PdrImplProofs.
 
   (** never an error, never a panic: the result is a verdict (or the model's own fuel ran out) *)
   Theorem pdr_model_definite fuel bf :
-    total_solver ->
-    good (pdr lit lit_eqb St cube_of_state W solve gen_on has_bads bmc_result fuel bf).
+    total_solver -> bmc_ok ->
+    good (pdr lit lit_eqb St cube_of_state W EM solve cmd_fail n_init gen_on has_bads bmc_result fuel bf).
   Proof.
-    intros Htot. unfold pdr. destruct has_bads; [| exact I].
-    apply pdr_loop_good; [exact Htot | apply init_state_pinv | apply init_state_book].
+    intros Htot Hbmc. unfold pdr. destruct has_bads; [| exact I].
+    destruct (cmds_ok n_init (init_state lit St EM) Htot) as (st0 & Ec). rewrite Ec.
+    pose proof (cmds_spec _ _ _ Ec) as Hs0.
+    apply pdr_loop_good; [exact Htot | exact Hbmc | apply (sem_eq_pinv _ _ Hs0), init_state_pinv | apply (sem_eq_book _ _ Hs0), init_state_book].
   Qed.
 End PdrImplProofs.
 
@@ -1643,9 +1733,12 @@ Section PdrModelTheorems.
   Variable St : Type.
   Variable cube_of_state : St -> list lit.
   Variable W : Type.
-  Variable solve : nat -> query lit -> answer lit St.
+  Variable EM : Type.
+  Variable solve : nat -> query lit -> answer lit St EM.
+  Variable cmd_fail : nat -> option EM.
+  Variable n_init : nat.
   Variable gen_on has_bads : bool.
-  Variable bmc_result : bmc_answer W.
+  Variable bmc_result : bmc_answer W EM.
   Variable lit_holds : lit -> St -> bool.
   Variable bad0 : St -> bool.
   Variable step0 trans : St -> St -> bool.
@@ -1654,45 +1747,49 @@ Section PdrModelTheorems.
   (** the hypotheses on the oracle and on the literals *)
   Definition oracle_ok : Prop :=
     (forall s s', ch lit St lit_holds (cube_of_state s) s' = true -> s' = s) /\
-    (forall n q, truthful lit lit_eqb St lit_holds bad0 step0 trans bad q (solve n q)) /\
+    (forall n q, truthful lit lit_eqb St EM lit_holds bad0 step0 trans bad q (solve n q)) /\
     (has_bads = false -> no_bads St bad0 bad).
 
-  Notation run fuel bf := (pdr lit lit_eqb St cube_of_state W solve gen_on has_bads bmc_result fuel bf).
+  (** no fault: no "unknown", no error answer, no failing command, no failing BMC fallback *)
+  Definition no_faults : Prop :=
+    total_solver lit St EM solve cmd_fail /\ bmc_ok W EM bmc_result.
+
+  Notation run fuel bf := (pdr lit lit_eqb St cube_of_state W EM solve cmd_fail n_init gen_on has_bads bmc_result fuel bf).
 
   Theorem pdr_model_success_sound fuel bf st' :
     oracle_ok -> run fuel bf = Ok (VSuccess W, st') -> safe St bad0 step0 trans bad.
   Proof.
     intros (H1 & H2 & H3) H.
-    exact (pdr_model_sound lit lit_eqb St cube_of_state W solve gen_on has_bads bmc_result lit_holds bad0 step0 trans bad
+    exact (pdr_model_sound lit lit_eqb St cube_of_state W EM solve cmd_fail n_init gen_on has_bads bmc_result lit_holds bad0 step0 trans bad
                            H1 H2 fuel bf _ _ H3 H).
   Qed.
 
   Theorem pdr_model_fail_real fuel bf w st' :
     oracle_ok -> run fuel bf = Ok (VFail W w, st') ->
-    bmc_result = BmcFail W w /\ exists d, d <= MAX_FRAMES /\ unsafe_at St bad0 step0 trans bad d.
+    bmc_result = BmcFail W EM w /\ exists d, d <= MAX_FRAMES /\ unsafe_at St bad0 step0 trans bad d.
   Proof.
     intros (H1 & H2 & H3) H.
-    exact (pdr_model_sound lit lit_eqb St cube_of_state W solve gen_on has_bads bmc_result lit_holds bad0 step0 trans bad
+    exact (pdr_model_sound lit lit_eqb St cube_of_state W EM solve cmd_fail n_init gen_on has_bads bmc_result lit_holds bad0 step0 trans bad
                            H1 H2 fuel bf _ _ H3 H).
   Qed.
 
   Theorem pdr_model_unknown_only fuel bf st' :
     oracle_ok -> run fuel bf = Ok (VUnknown W, st') ->
-    MAX_FRAMES < length (p_frames lit St st') \/
-    (bmc_result = BmcOther W /\ exists d, d <= MAX_FRAMES /\ unsafe_at St bad0 step0 trans bad d).
+    MAX_FRAMES < length (p_frames lit St EM st') \/
+    (bmc_result = BmcOther W EM /\ exists d, d <= MAX_FRAMES /\ unsafe_at St bad0 step0 trans bad d).
   Proof.
     intros (H1 & H2 & H3) H.
-    exact (pdr_model_sound lit lit_eqb St cube_of_state W solve gen_on has_bads bmc_result lit_holds bad0 step0 trans bad
+    exact (pdr_model_sound lit lit_eqb St cube_of_state W EM solve cmd_fail n_init gen_on has_bads bmc_result lit_holds bad0 step0 trans bad
                            H1 H2 fuel bf _ _ H3 H).
   Qed.
 
   Theorem pdr_model_no_error fuel bf :
-    oracle_ok -> (forall n q, solve n q <> AUnknown lit St) ->
-    match run fuel bf with Err _ | Panic _ => False | Ok _ | Fuel => True end.
+    oracle_ok -> no_faults ->
+    match run fuel bf with Err _ _ | Panic _ => False | Ok _ | Fuel => True end.
   Proof.
-    intros (H1 & H2 & _) Htot.
-    exact (pdr_model_definite lit lit_eqb St cube_of_state W solve gen_on has_bads bmc_result lit_holds bad0 step0 trans bad
-                              H1 H2 fuel bf Htot).
+    intros (H1 & H2 & _) (Htot & Hbmc).
+    exact (pdr_model_definite lit lit_eqb St cube_of_state W EM solve cmd_fail n_init gen_on has_bads bmc_result lit_holds bad0 step0 trans bad
+                              H1 H2 fuel bf Htot Hbmc).
   Qed.
 End PdrModelTheorems.
 
@@ -1701,6 +1798,7 @@ Section EnumOracleProofs.
   Variable lit : Type.
   Variable lit_eqb : lit -> lit -> bool.
   Variable St : Type.
+  Variable EM : Type.
   Variable lit_holds : lit -> St -> bool.
   Variable bad0 : St -> bool.
   Variable step0 trans : St -> St -> bool.
@@ -1739,8 +1837,8 @@ Section EnumOracleProofs.
   Qed.
 
   Theorem enum_solve_truthful n q :
-    truthful lit lit_eqb St lit_holds bad0 step0 trans bad q
-             (enum_solve lit St lit_holds bad0 step0 trans bad states n q).
+    truthful lit lit_eqb St EM lit_holds bad0 step0 trans bad q
+             (enum_solve lit St EM lit_holds bad0 step0 trans bad states n q).
   Proof.
     unfold enum_solve. destruct (find (enum_ok lit St lit_holds bad0 step0 trans bad states q) states) as [m |] eqn:Ef; cbn [truthful].
     - apply find_some in Ef. now apply enum_ok_model.
@@ -1751,7 +1849,24 @@ Section EnumOracleProofs.
       apply enum_ok_model in Hq. pose proof (find_none _ _ Ef m (states_all m)) as Hn. congruence.
   Qed.
 
-  Theorem enum_solve_total n q : enum_solve lit St lit_holds bad0 step0 trans bad states n q <> AUnknown lit St.
-  Proof. unfold enum_solve. destruct (find _ states); discriminate. Qed.
-End EnumOracleProofs.
+  (** the executable test of one answer decides the oracle hypothesis *)
+  Theorem answer_ok_truthful q a :
+    answer_ok lit St EM lit_holds bad0 step0 trans bad states lit_eqb q a = true <->
+    truthful lit lit_eqb St EM lit_holds bad0 step0 trans bad q a.
+  Proof.
+    destruct a as [m | core | | e]; cbn [answer_ok truthful]; [apply enum_ok_model | | tauto | tauto].
+    change (restrict_q lit lit_eqb q core) with (restrict lit lit_eqb q core).
+    rewrite negb_true_iff. split.
+    - intros H m Hm. apply enum_ok_model in Hm.
+      assert (Hx : existsb (enum_ok lit St lit_holds bad0 step0 trans bad states (if q_core lit q then restrict lit lit_eqb q core else q)) states = true).
+      { apply existsb_exists. exists m. split; [apply states_all | exact Hm]. }
+      congruence.
+    - intros H. destruct (existsb _ states) eqn:Ex; [| reflexivity].
+      apply existsb_exists in Ex. destruct Ex as (m & _ & Hm). apply enum_ok_model in Hm. now elim (H m).
+  Qed.
 
+  Theorem enum_solve_total n q :
+    enum_solve lit St EM lit_holds bad0 step0 trans bad states n q <> AUnknown lit St EM /\
+    forall e, enum_solve lit St EM lit_holds bad0 step0 trans bad states n q <> AErr lit St EM e.
+  Proof. unfold enum_solve. destruct (find _ states); split; try discriminate; intros; discriminate. Qed.
+End EnumOracleProofs.
